@@ -122,23 +122,34 @@ structure UInv (u : UState) (seen : List Nat) : Prop where
   len : 5 ≤ u.heap.length
   inFunc : u.inFunc = false
   simpleKeys : ∀ key v, (topScope u).get key = some v → simpleName key = true
-  unusedOK : ∀ k ∈ u.unused, (∃ c : Checker, u.checkers[k]? = some c ∧ c.used = false) ∧
+  /-- reported checkers are imports (not anonymous carriers) and no scope holds them any more -/
+  unusedOK : ∀ k ∈ u.unused, (∃ c : Checker, u.checkers[k]? = some c ∧ c.anon = false) ∧
     ∀ i key, (u.heap.get i).get key ≠ some (.obj k)
-  uniq : ∀ (k k' : Nat) (c c' : Checker), u.checkers[k]? = some c → u.checkers[k']? = some c' → (c.line, c.idx) = (c'.line, c'.idx) → k = k'
-  seenLines : ∀ (k : Nat) (c : Checker), u.checkers[k]? = some c → c.line ∈ seen
+  /-- shadowed checkers are imports and no scope holds them -/
+  shOK : ∀ (k : Nat) (c : Checker), u.checkers[k]? = some c → ∀ j ∈ c.shadowed,
+    (∃ d : Checker, u.checkers[j]? = some d ∧ d.anon = false) ∧ ∀ i key, (u.heap.get i).get key ≠ some (.obj j)
+  uniq : ∀ (k k' : Nat) (c c' : Checker), u.checkers[k]? = some c → u.checkers[k']? = some c' → c.anon = false → c'.anon = false →
+    (c.line, c.idx) = (c'.line, c'.idx) → k = k'
+  seenLines : ∀ (k : Nat) (c : Checker), u.checkers[k]? = some c → c.anon = false → c.line ∈ seen
   valid : ∀ i key k, (u.heap.get i).get key = some (.obj k) → i = 4 ∧ k < u.checkers.length
-  bindKey : ∀ (key : Str) (k : Nat) (c : Checker), (topScope u).get key = some (.obj k) → u.checkers[k]? = some c → c.bind = key
+  bindKey : ∀ (key : Str) (k : Nat) (c : Checker), (topScope u).get key = some (.obj k) → u.checkers[k]? = some c →
+    c.anon = true ∨ c.bind = key
 
 def KeysNodup {β} (l : List (Str × β)) : Prop := (l.map (·.1)).Nodup
+
+/-- every recorded use has a used import checker that has not been reported -/
+def UsedLink (s : XState) (u : UState) : Prop :=
+  ∀ o ∈ s.usedImps, ∃ (k : Nat) (c : Checker), u.checkers[k]? = some c ∧ (c.line, c.idx) = o ∧ c.used = true ∧ c.anon = false ∧
+    k ∉ u.unused
 
 structure CorrU (s : XState) (u : UState) : Prop where
   okeys : KeysNodup s.origins
   origin : ∀ n o, assocGet n s.origins = some o →
-    ∃ (k : Nat) (c : Checker), (topScope u).get n = some (.obj k) ∧ u.checkers[k]? = some c ∧ (c.line, c.idx) = o
+    ∃ (k : Nat) (c : Checker), (topScope u).get n = some (.obj k) ∧ u.checkers[k]? = some c ∧ (c.line, c.idx) = o ∧ c.anon = false
   line : u.line = s.line
-  used : ∀ o ∈ s.usedImps, ∃ (k : Nat) (c : Checker), u.checkers[k]? = some c ∧ (c.line, c.idx) = o ∧ c.used = true
+  used : UsedLink s u
 
-/-- `u'` = `u` with the `used` flag of some reachable checkers set (and possibly more deferred entries) -/
+/-- `u'` = `u` with the `used` flag of some checkers set (lookups only mark) -/
 structure Marks (u u' : UState) : Prop where
   heap : u'.heap = u.heap
   stackEq : u'.stack = u.stack
@@ -147,93 +158,194 @@ structure Marks (u u' : UState) : Prop where
   inFuncEq : u'.inFunc = u.inFunc
   len : u'.checkers.length = u.checkers.length
   each : ∀ (k : Nat) (c : Checker), u.checkers[k]? = some c →
-    u'.checkers[k]? = some c ∨
-    ((∃ i key, (u.heap.get i).get key = some (.obj k)) ∧ u'.checkers[k]? = some { c with used := true })
+    u'.checkers[k]? = some c ∨ u'.checkers[k]? = some { c with used := true }
 
 theorem Marks.refl (u : UState) : Marks u u := ⟨rfl, rfl, rfl, rfl, rfl, rfl, fun _ _ h => .inl h⟩
 
 theorem Marks.get {u u' : UState} (h : Marks u u') {k : Nat} {c' : Checker} (hc : u'.checkers[k]? = Option.some c') :
-    ∃ c, u.checkers[k]? = Option.some c ∧ c.bind = c'.bind ∧ c.line = c'.line ∧ c.idx = c'.idx ∧ (c.used = true → c'.used = true) := by
+    ∃ c, u.checkers[k]? = Option.some c ∧ c.bind = c'.bind ∧ c.line = c'.line ∧ c.idx = c'.idx ∧ (c.used = true → c'.used = true) ∧
+      c.anon = c'.anon ∧ c.shadowed = c'.shadowed := by
   have hk : k < u.checkers.length := by
     rw [← h.len]; exact (List.getElem?_eq_some_iff.mp hc).1
   have hcu : u.checkers[k]? = Option.some u.checkers[k] := List.getElem?_eq_getElem hk
-  rcases h.each k _ hcu with h1 | ⟨_, h1⟩
+  rcases h.each k _ hcu with h1 | h1
   · have := Option.some.inj (h1.symm.trans hc)
-    rw [← this]; exact ⟨_, hcu, rfl, rfl, rfl, fun x => x⟩
+    rw [← this]; exact ⟨_, hcu, rfl, rfl, rfl, fun x => x, rfl, rfl⟩
   · have := Option.some.inj (h1.symm.trans hc)
-    rw [← this]; exact ⟨_, hcu, rfl, rfl, rfl, fun _ => rfl⟩
+    rw [← this]; exact ⟨_, hcu, rfl, rfl, rfl, fun _ => rfl, rfl, rfl⟩
 
 theorem Marks.trans {a b c : UState} (h1 : Marks a b) (h2 : Marks b c) : Marks a c := by
   refine ⟨h2.heap.trans h1.heap, h2.stackEq.trans h1.stackEq, h2.unusedEq.trans h1.unusedEq, h2.lineEq.trans h1.lineEq,
     h2.inFuncEq.trans h1.inFuncEq, h2.len.trans h1.len, fun k x hx => ?_⟩
-  rcases h1.each k x hx with hb | ⟨hr, hb⟩
-  · rcases h2.each k x hb with hc | ⟨hr2, hc⟩
-    · exact .inl hc
-    · exact .inr ⟨by rw [h1.heap] at hr2; exact hr2, hc⟩
-  · rcases h2.each k _ hb with hc | ⟨_, hc⟩
-    · exact .inr ⟨hr, hc⟩
-    · exact .inr ⟨hr, hc⟩
+  rcases h1.each k x hx with hb | hb
+  · exact h2.each k x hb
+  · rcases h2.each k _ hb with hc | hc
+    · exact .inr hc
+    · exact .inr hc
 
 theorem UInv.marks {u u' : UState} {seen : List Nat} (h : UInv u seen) (m : Marks u u') : UInv u' seen := by
   have hts : topScope u' = topScope u := by unfold topScope; rw [m.heap]
+  have hex : ∀ (j : Nat) (d : Checker), u.checkers[j]? = some d → ∃ d', u'.checkers[j]? = some d' ∧ d'.anon = d.anon := by
+    intro j d hd
+    rcases m.each j d hd with h1 | h1
+    · exact ⟨d, h1, rfl⟩
+    · exact ⟨_, h1, rfl⟩
   refine ⟨by rw [m.stackEq]; exact h.stack, by rw [m.heap]; exact h.len, by rw [m.inFuncEq]; exact h.inFunc,
-    by rw [hts]; exact h.simpleKeys, ?_, ?_, ?_, ?_, ?_⟩
+    by rw [hts]; exact h.simpleKeys, ?_, ?_, ?_, ?_, ?_, ?_⟩
   · intro k hk
     rw [m.unusedEq] at hk
-    obtain ⟨⟨c, hc, hcu⟩, hr⟩ := h.unusedOK k hk
-    refine ⟨?_, by rw [m.heap]; exact hr⟩
-    rcases m.each k c hc with h1 | ⟨⟨i, key, hreach⟩, _⟩
-    · exact ⟨c, h1, hcu⟩
-    · exact absurd hreach (hr i key)
-  · intro k k' c c' hc hc' hid
-    obtain ⟨d, hd, _, hl, hi, _⟩ := m.get hc
-    obtain ⟨d', hd', _, hl', hi', _⟩ := m.get hc'
-    exact h.uniq k k' d d' hd hd' (by rw [hl, hi, hl', hi']; exact hid)
-  · intro k c hc
-    obtain ⟨d, hd, _, hl, _, _⟩ := m.get hc
-    rw [← hl]; exact h.seenLines k d hd
+    obtain ⟨⟨c, hc, hca⟩, hr⟩ := h.unusedOK k hk
+    obtain ⟨c', hc', ha'⟩ := hex k c hc
+    exact ⟨⟨c', hc', by rw [ha']; exact hca⟩, by rw [m.heap]; exact hr⟩
+  · intro k c hc j hj
+    obtain ⟨d, hd, _, _, _, _, _, hsh⟩ := m.get hc
+    rw [← hsh] at hj
+    obtain ⟨⟨e, he, hea⟩, hr⟩ := h.shOK k d hd j hj
+    obtain ⟨e', he', ha'⟩ := hex j e he
+    exact ⟨⟨e', he', by rw [ha']; exact hea⟩, by rw [m.heap]; exact hr⟩
+  · intro k k' c c' hc hc' ha ha' hid
+    obtain ⟨d, hd, _, hl, hi, _, hda, _⟩ := m.get hc
+    obtain ⟨d', hd', _, hl', hi', _, hda', _⟩ := m.get hc'
+    exact h.uniq k k' d d' hd hd' (by rw [hda]; exact ha) (by rw [hda']; exact ha') (by rw [hl, hi, hl', hi']; exact hid)
+  · intro k c hc ha
+    obtain ⟨d, hd, _, hl, _, _, hda, _⟩ := m.get hc
+    rw [← hl]; exact h.seenLines k d hd (by rw [hda]; exact ha)
   · intro i key k hk
     rw [m.heap] at hk
     rw [m.len]; exact h.valid i key k hk
   · intro key k c hk hc
     rw [hts] at hk
-    obtain ⟨d, hd, hb, _, _, _⟩ := m.get hc
-    rw [← hb]; exact h.bindKey key k d hk hd
+    obtain ⟨d, hd, hb, _, _, _, hda, _⟩ := m.get hc
+    rw [← hb, ← hda]; exact h.bindKey key k d hk hd
+
+/-- once used, always used (the identity of a checker never changes), and whatever is reported was unused when it was
+    reported -/
+structure UsedPersist (u u' : UState) : Prop where
+  used : ∀ (k : Nat) (c : Checker), u.checkers[k]? = some c → c.used = true →
+    ∃ c', u'.checkers[k]? = some c' ∧ c'.used = true ∧ c'.line = c.line ∧ c'.idx = c.idx ∧ c'.anon = c.anon
+  rep : ∀ k ∈ u'.unused, k ∈ u.unused ∨ ∀ c, u.checkers[k]? = some c → c.used = false
+
+theorem UsedPersist.refl (u : UState) : UsedPersist u u :=
+  ⟨fun _ c hc hu => ⟨c, hc, hu, rfl, rfl, rfl⟩, fun _ hk => .inl hk⟩
+
+theorem UsedPersist.trans {a b c : UState} (h1 : UsedPersist a b) (h2 : UsedPersist b c) : UsedPersist a c := by
+  refine ⟨fun k x hx hu => ?_, fun k hk => ?_⟩
+  · obtain ⟨y, hy, hyu, hl, hi, ha⟩ := h1.used k x hx hu
+    obtain ⟨z, hz, hzu, hl2, hi2, ha2⟩ := h2.used k y hy hyu
+    exact ⟨z, hz, hzu, hl2.trans hl, hi2.trans hi, ha2.trans ha⟩
+  · rcases h2.rep k hk with hb | hb
+    · exact h1.rep k hb
+    · right
+      intro x hx
+      cases hxu : x.used with
+      | false => rfl
+      | true =>
+        obtain ⟨y, hy, hyu, _⟩ := h1.used k x hx hxu
+        rw [hb y hy] at hyu; cases hyu
+
+theorem Marks.usedStays {u u' : UState} (m : Marks u u') {k : Nat} {c : Checker} (hc : u.checkers[k]? = some c)
+    (hu : c.used = true) : ∃ c', u'.checkers[k]? = some c' ∧ c'.used = true ∧ c'.line = c.line ∧ c'.idx = c.idx ∧ c'.anon = c.anon := by
+  rcases m.each k c hc with h | h
+  · exact ⟨c, h, hu, rfl, rfl, rfl⟩
+  · exact ⟨_, h, rfl, rfl, rfl, rfl⟩
+
+theorem Marks.persist {u u' : UState} (m : Marks u u') : UsedPersist u u' :=
+  ⟨fun _ _ hc hu => m.usedStays hc hu, fun k hk => .inl (by rw [← m.unusedEq]; exact hk)⟩
+
+theorem UsedPersist.ofEq {u u' : UState} (h : u'.checkers = u.checkers) (hu : u'.unused = u.unused) : UsedPersist u u' :=
+  ⟨fun _ c hc hu => ⟨c, by rw [h]; exact hc, hu, rfl, rfl, rfl⟩, fun k hk => .inl (by rw [← hu]; exact hk)⟩
+
+theorem UsedLink.persist {s : XState} {u u' : UState} (h : UsedLink s u) (p : UsedPersist u u') : UsedLink s u' := by
+  intro o ho
+  obtain ⟨k, c, hc, hid, hu, ha, hnu⟩ := h o ho
+  obtain ⟨c', hc', hu', hl, hi, ha'⟩ := p.used k c hc hu
+  refine ⟨k, c', hc', by rw [hl, hi]; exact hid, hu', by rw [ha']; exact ha, fun hk => ?_⟩
+  rcases p.rep k hk with h1 | h1
+  · exact hnu h1
+  · rw [h1 c hc] at hu; cases hu
 
 theorem CorrU.marks {s : XState} {u u' : UState} (h : CorrU s u) (m : Marks u u') : CorrU s u' := by
   have hts : topScope u' = topScope u := by unfold topScope; rw [m.heap]
-  refine ⟨h.okeys, ?_, by rw [m.lineEq]; exact h.line, ?_⟩
-  · intro n o ho
-    obtain ⟨k, c, hk, hc, hid⟩ := h.origin n o ho
-    rcases m.each k c hc with h1 | ⟨_, h1⟩
-    · exact ⟨k, c, by rw [hts]; exact hk, h1, hid⟩
-    · exact ⟨k, _, by rw [hts]; exact hk, h1, hid⟩
-  · intro o ho
-    obtain ⟨k, c, hc, hid, hu⟩ := h.used o ho
-    rcases m.each k c hc with h1 | ⟨_, h1⟩
-    · exact ⟨k, c, h1, hid, hu⟩
-    · exact ⟨k, _, h1, hid, rfl⟩
+  refine ⟨h.okeys, ?_, by rw [m.lineEq]; exact h.line, h.used.persist m.persist⟩
+  intro n o ho
+  obtain ⟨k, c, hk, hc, hid, ha⟩ := h.origin n o ho
+  rcases m.each k c hc with h1 | h1
+  · exact ⟨k, c, by rw [hts]; exact hk, h1, hid, ha⟩
+  · exact ⟨k, _, by rw [hts]; exact hk, h1, hid, ha⟩
 
-theorem markUsed_getElem (cs : List Checker) (k j : Nat) :
-    (markUsed cs k)[j]? = if j = k then cs[j]?.map (fun c => { c with used := true }) else cs[j]? := by
-  unfold markUsed
+/-! ### marking through the `used` setter -/
+
+/-- `cs'` = `cs` with the `used` flag of some checkers set -/
+def MarkRel (cs cs' : List Checker) : Prop :=
+  cs'.length = cs.length ∧ ∀ (j : Nat) (c : Checker), cs[j]? = some c → cs'[j]? = some c ∨ cs'[j]? = some { c with used := true }
+
+theorem MarkRel.refl (cs : List Checker) : MarkRel cs cs := ⟨rfl, fun _ _ h => .inl h⟩
+
+theorem MarkRel.trans {a b c : List Checker} (h1 : MarkRel a b) (h2 : MarkRel b c) : MarkRel a c := by
+  refine ⟨h2.1.trans h1.1, fun j x hx => ?_⟩
+  rcases h1.2 j x hx with hb | hb
+  · exact h2.2 j x hb
+  · rcases h2.2 j _ hb with hc | hc
+    · exact .inr hc
+    · exact .inr hc
+
+theorem MarkRel.get {cs cs' : List Checker} (h : MarkRel cs cs') {k : Nat} {c' : Checker} (hc : cs'[k]? = Option.some c') :
+    ∃ c, cs[k]? = Option.some c ∧ c.bind = c'.bind ∧ c.line = c'.line ∧ c.idx = c'.idx ∧ (c.used = true → c'.used = true) ∧
+      c.anon = c'.anon ∧ c.shadowed = c'.shadowed := by
+  have hk : k < cs.length := by
+    rw [← h.1]; exact (List.getElem?_eq_some_iff.mp hc).1
+  have hcu : cs[k]? = Option.some cs[k] := List.getElem?_eq_getElem hk
+  rcases h.2 k _ hcu with h1 | h1
+  · have := Option.some.inj (h1.symm.trans hc)
+    rw [← this]; exact ⟨_, hcu, rfl, rfl, rfl, fun x => x, rfl, rfl⟩
+  · have := Option.some.inj (h1.symm.trans hc)
+    rw [← this]; exact ⟨_, hcu, rfl, rfl, rfl, fun _ => rfl, rfl, rfl⟩
+
+theorem markRel_modify (cs : List Checker) (k : Nat) : MarkRel cs (cs.modify k (fun c => { c with used := true })) := by
+  refine ⟨by simp, fun j c hc => ?_⟩
   rw [List.getElem?_modify]
-  by_cases h : k = j
-  · subst h; simp
-  · have : ¬ j = k := fun hh => h hh.symm
-    simp [h, this]
+  by_cases hkj : k = j
+  · subst hkj; right; simp [hc]
+  · left; simp [hkj, hc]
+
+theorem markRel_foldl (f : List Checker → Nat → List Checker) (hf : ∀ cs j, MarkRel cs (f cs j)) :
+    ∀ (l : List Nat) (cs : List Checker), MarkRel cs (l.foldl f cs)
+  | [], cs => MarkRel.refl cs
+  | j :: r, cs => (hf cs j).trans (markRel_foldl f hf r _)
+
+theorem markRec_rel : ∀ (f : Nat) (cs : List Checker) (k : Nat), MarkRel cs (markRec f cs k)
+  | 0, cs, _ => MarkRel.refl cs
+  | f + 1, cs, k => by
+    unfold markRec
+    cases hk : cs[k]? with
+    | none => exact MarkRel.refl cs
+    | some c =>
+      simp only
+      exact (markRel_modify cs k).trans (markRel_foldl _ (fun cs j => markRec_rel f cs j) c.shadowed _)
+
+theorem markUsed_rel (cs : List Checker) (k : Nat) : MarkRel cs (markUsed cs k) := markRec_rel _ cs k
+
+/-- the checker itself is marked -/
+theorem markUsed_self (cs : List Checker) (k : Nat) (c : Checker) (hc : cs[k]? = some c) :
+    (markUsed cs k)[k]? = some { c with used := true } := by
+  unfold markUsed markRec
+  rw [hc]
+  simp only
+  have h0 : (cs.modify k (fun c => { c with used := true }))[k]? = some { c with used := true } := by
+    rw [List.getElem?_modify]; simp [hc]
+  have hr := markRel_foldl (fun cs' j => markRec cs.length cs' j) (fun cs' j => markRec_rel _ cs' j) c.shadowed
+    (cs.modify k (fun c => { c with used := true }))
+  rcases hr.2 k _ h0 with h1 | h1
+  · exact h1
+  · exact h1
 
 /-- a lookup only marks -/
 theorem sniU_marks (u : UState) (ids : List Nat) (d : Str) : Marks u (sniU u ids d).2 := by
   rcases sniU_weak u ids d with h | ⟨i, key, k, hk, h⟩
   · rw [h]; exact Marks.refl u
   · rw [h]
-    refine ⟨rfl, rfl, rfl, rfl, rfl, by simp [markUsed], fun j c hc => ?_⟩
-    show (markUsed u.checkers k)[j]? = _ ∨ _
-    rw [markUsed_getElem]
-    by_cases hj : j = k
-    · subst hj; exact .inr ⟨⟨i, key, hk⟩, by simp [hc]⟩
-    · simp [hj, hc]
+    have hr := markUsed_rel u.checkers k
+    exact ⟨rfl, rfl, rfl, rfl, rfl, hr.1, hr.2⟩
 
 /-- at module level a lookup of `d` marks the checker that the head of `d` is bound to in the top scope -/
 theorem sniU_head {u : UState} {seen : List Nat} (h : UInv u seen) {d : Str} (hd : goodDotted d = true) {k : Nat} {c : Checker}
@@ -256,18 +368,12 @@ theorem sniU_head {u : UState} {seen : List Nat} (h : UInv u seen) {d : Str} (hd
   unfold sniU
   rw [hfind]
   show (markUsed u.checkers k)[k]? = _
-  rw [markUsed_getElem]; simp [hc]
+  exact markUsed_self u.checkers k c hc
 
 /-! ### module-level visitor actions in unused-import mode -/
 
 theorem runOpsU_append (u : UState) (a b : List Op) : runOpsU u (a ++ b) = runOpsU (runOpsU u a) b := by
   simp [runOpsU, List.foldl_append]
-
-theorem Marks.usedStays {u u' : UState} (m : Marks u u') {k : Nat} {c : Checker} (hc : u.checkers[k]? = some c)
-    (hu : c.used = true) : ∃ c', u'.checkers[k]? = some c' ∧ c'.used = true ∧ c'.line = c.line ∧ c'.idx = c.idx := by
-  rcases m.each k c hc with h | ⟨_, h⟩
-  · exact ⟨c, h, hu, rfl, rfl⟩
-  · exact ⟨_, h, rfl, rfl, rfl⟩
 
 /-- the loads of an expression, at module level: only marks, and every head bound to a checker gets that checker marked -/
 theorem loadsU {seen : List Nat} : ∀ (L : List Str) (u : UState), UInv u seen →
@@ -288,7 +394,7 @@ theorem loadsU {seen : List Nat} : ∀ (L : List Str) (u : UState), UInv u seen 
       obtain ⟨c', hc', hu', _, _⟩ := m2.usedStays this rfl
       exact ⟨c', hc', hu'⟩
     · have hts : topScope (sniU u u.stack.ids d0).2 = topScope u := by unfold topScope; rw [m1.heap]
-      rcases m1.each k c hc with hc1 | ⟨_, hc1⟩
+      rcases m1.each k c hc with hc1 | hc1
       · exact f2 d hd hg k c (by rw [hts]; exact hk) hc1
       · exact f2 d hd hg k _ (by rw [hts]; exact hk) hc1
 
@@ -297,71 +403,122 @@ theorem prefixes_simple {x : Str} (hx : simpleName x = true) : (prefixes (splitD
 
 theorem getElem?_append_new {α} (l : List α) (x : α) : (l ++ [x])[l.length]? = some x := by simp
 
-theorem reportOld_facts (u : UState) (key : Str) :
-    (reportOld u key).heap = u.heap ∧ (reportOld u key).stack = u.stack ∧ (reportOld u key).inFunc = u.inFunc ∧
-    (reportOld u key).line = u.line ∧ (reportOld u key).checkers = u.checkers ∧ (reportOld u key).deferred = u.deferred ∧
-    (reportOld u key).useMarks = u.useMarks ∧
-    ((reportOld u key).unused = u.unused ∨
-      ∃ (k : Nat) (c : Checker), (u.heap.get u.stack.top).get key = some (.obj k) ∧ u.checkers[k]? = some c ∧ c.used = false ∧
-        c.bind = key ∧ (reportOld u key).unused = u.unused ++ [k]) := by
-  unfold reportOld
-  cases hold : (u.heap.get u.stack.top).get key with
-  | none => exact ⟨rfl, rfl, rfl, rfl, rfl, rfl, rfl, .inl rfl⟩
-  | some old =>
-    simp only
-    cases hun : isUnusedAt u key old with
-    | none => exact ⟨rfl, rfl, rfl, rfl, rfl, rfl, rfl, .inl rfl⟩
-    | some k =>
-      simp only
-      by_cases hcond : u.cond = 0 ∧ ¬ (u.dnOn = true ∧ (splitDots key).headD [] ∈ u.deferredNames)
-      case neg => rw [if_neg hcond]; exact ⟨rfl, rfl, rfl, rfl, rfl, rfl, rfl, .inl rfl⟩
-      rw [if_pos hcond]
-      refine ⟨rfl, rfl, rfl, rfl, rfl, rfl, rfl, .inr ?_⟩
-      unfold isUnusedAt at hun
-      cases old with
-      | none => simp at hun
-      | obj k0 =>
-        simp only at hun
-        cases hc : u.checkers[k0]? with
-        | none => rw [hc] at hun; simp at hun
-        | some c =>
-          rw [hc] at hun
-          simp only at hun
-          split at hun
-          · rename_i hcond
-            simp only [Option.some.injEq] at hun; subst hun
-            simp only [Bool.and_eq_true, Bool.not_eq_true', decide_eq_true_eq] at hcond
-            exact ⟨k0, c, rfl, hc, hcond.1, hcond.2, rfl⟩
-          · simp at hun
+/-- the anonymous carrier that stands for the unused imports `P` -/
+def carrierOf (line : Nat) (P : List Nat) : Checker := { bind := [], line := line, idx := 0, anon := true, shadowed := P }
+
+/-- the ways a store can go (`P` = the pending list, `v'` = the value that ends up in the scope) -/
+inductive StoreCase (u u' : UState) (x : Str) (v : Val) (P : List Nat) : Val → Prop
+  /-- unconditional: the pending checkers are reported -/
+  | report : shadowing u x = false → u'.checkers = u.checkers → u'.unused = u.unused ++ P → StoreCase u u' x v P v
+  /-- conditional, nothing pending -/
+  | plain : shadowing u x = true → P = [] → u'.checkers = u.checkers → u'.unused = u.unused → StoreCase u u' x v P v
+  /-- conditional, the new import checker shadows the pending ones -/
+  | attach (kv : Nat) : shadowing u x = true → P ≠ [] → v = .obj kv →
+      u'.checkers = u.checkers.modify kv (fun c => { c with shadowed := P ++ c.shadowed }) → u'.unused = u.unused →
+      StoreCase u u' x v P v
+  /-- conditional, a non-import value: an anonymous carrier is stored instead -/
+  | carrier : shadowing u x = true → P ≠ [] → v = .none → u'.checkers = u.checkers ++ [carrierOf u.line P] →
+      u'.unused = u.unused → StoreCase u u' x v P (.obj u.checkers.length)
+
+theorem writeTop_fields (u : UState) (key : Str) (v : Val) :
+    (writeTop u key v).stack = u.stack ∧ (writeTop u key v).heap.length = u.heap.length ∧ (writeTop u key v).inFunc = u.inFunc ∧
+    (writeTop u key v).line = u.line ∧ (writeTop u key v).deferred = u.deferred ∧ (writeTop u key v).useMarks = u.useMarks ∧
+    (writeTop u key v).inClass = u.inClass ∧ (writeTop u key v).checkers = u.checkers ∧ (writeTop u key v).unused = u.unused := by
+  refine ⟨rfl, by simp [writeTop, Heap.length_update], rfl, rfl, rfl, rfl, rfl, rfl, rfl⟩
+
+theorem writeTop_get (u : UState) (htop : u.stack.top = 4) (h5 : 5 ≤ u.heap.length) (x : Str) (v : Val) (i : Nat) (key : Str) :
+    ((writeTop u x v).heap.get i).get key = if i = 4 ∧ key = x then some v else (u.heap.get i).get key := by
+  show ((u.heap.update u.stack.top (·.set x v)).get i).get key = _
+  rw [htop, Heap.get_update]
+  by_cases hi : i = 4
+  · subst hi
+    have : 4 < u.heap.length := by omega
+    simp only [this, and_self, ↓reduceIte, true_and]
+    by_cases hkx : key = x
+    · subst hkx; simp [scope_get_set_eq]
+    · rw [scope_get_set_ne _ hkx]; simp [hkx]
+  · simp [hi]
 
 /-- `_visit_Store(x, value)` of a simple key at module level -/
 theorem storeU_simple {seen : List Nat} {u : UState} (h : UInv u seen) {x : Str} (hx : simpleName x = true) (v : Val) :
     (storeU u x v).stack = u.stack ∧ (storeU u x v).heap.length = u.heap.length ∧ (storeU u x v).inFunc = u.inFunc ∧
-    (storeU u x v).line = u.line ∧ (storeU u x v).checkers = u.checkers ∧ (storeU u x v).deferred = u.deferred ∧
-    (storeU u x v).useMarks = u.useMarks ∧
-    (∀ i key, ((storeU u x v).heap.get i).get key = if i = 4 ∧ key = x then some v else (u.heap.get i).get key) ∧
-    ((storeU u x v).unused = u.unused ∨ ∃ (k : Nat) (c : Checker), (topScope u).get x = some (.obj k) ∧ u.checkers[k]? = some c ∧
-        c.used = false ∧ (storeU u x v).unused = u.unused ++ [k]) := by
+    (storeU u x v).line = u.line ∧ (storeU u x v).deferred = u.deferred ∧ (storeU u x v).useMarks = u.useMarks ∧
+    (storeU u x v).inClass = u.inClass ∧
+    ∃ v', StoreCase u (storeU u x v) x v (pendingOf u.checkers x ((topScope u).get x)) v' ∧
+      ∀ i key, ((storeU u x v).heap.get i).get key = if i = 4 ∧ key = x then some v' else (u.heap.get i).get key := by
   have htop : u.stack.top = 4 := by unfold StackRef.top; rw [h.stack]; rfl
   have hla : lookupAncestors u x = u := by unfold lookupAncestors; rw [prefixes_simple hx]; rfl
-  obtain ⟨r1, r2, r3, r4, r5, r6, r7, r8⟩ := reportOld_facts u x
-  have hst : storeU u x v = { reportOld u x with heap := (reportOld u x).heap.update (reportOld u x).stack.top (·.set x v) } := by
-    unfold storeU; rw [hla]
-  rw [hst]
-  refine ⟨r2, by simp [Heap.length_update, r1], r3, r4, r5, r6, r7, fun i key => ?_, ?_⟩
-  · show (((reportOld u x).heap.update (reportOld u x).stack.top (·.set x v)).get i).get key = _
-    rw [r1, r2, htop, Heap.get_update]
-    by_cases hi : i = 4
-    · subst hi
-      have : 4 < u.heap.length := by have := h.len; omega
-      simp only [this, and_self, ↓reduceIte, true_and]
-      by_cases hkx : key = x
-      · subst hkx; simp [scope_get_set_eq]
-      · rw [scope_get_set_ne _ hkx]; simp [hkx]
-    · simp [hi]
-  · rcases r8 with r8 | ⟨k, c, hk, hc, hu, _, hun⟩
-    · exact .inl r8
-    · exact .inr ⟨k, c, by unfold topScope; rw [← htop]; exact hk, hc, hu, hun⟩
+  have hP : pendingOf u.checkers x ((u.heap.get u.stack.top).get x) = pendingOf u.checkers x ((topScope u).get x) := by
+    unfold topScope; rw [htop]
+  unfold storeU
+  simp only [hla, hP]
+  cases hsh : shadowing u x with
+  | false =>
+    simp only [Bool.false_eq_true, ↓reduceIte]
+    obtain ⟨w1, w2, w3, w4, w5, w6, w7, w8, w9⟩ := writeTop_fields { u with unused := u.unused ++ pendingOf u.checkers x ((topScope u).get x) } x v
+    exact ⟨w1, w2, w3, w4, w5, w6, w7, v, .report hsh w8 w9, fun i key => writeTop_get _ htop h.len x v i key⟩
+  | true =>
+    simp only [↓reduceIte]
+    cases hpe : (pendingOf u.checkers x ((topScope u).get x)).isEmpty with
+    | true =>
+      simp only [↓reduceIte]
+      obtain ⟨w1, w2, w3, w4, w5, w6, w7, w8, w9⟩ := writeTop_fields u x v
+      exact ⟨w1, w2, w3, w4, w5, w6, w7, v, .plain hsh (List.isEmpty_iff.mp hpe) w8 w9, fun i key => writeTop_get _ htop h.len x v i key⟩
+    | false =>
+      simp only [Bool.false_eq_true, ↓reduceIte]
+      have hne : pendingOf u.checkers x ((topScope u).get x) ≠ [] := by
+        intro hc; rw [hc] at hpe; simp at hpe
+      cases v with
+      | obj kv =>
+        simp only
+        obtain ⟨w1, w2, w3, w4, w5, w6, w7, w8, w9⟩ := writeTop_fields
+          { u with checkers := u.checkers.modify kv (fun c => { c with shadowed := pendingOf u.checkers x ((topScope u).get x) ++ c.shadowed }) } x (.obj kv)
+        exact ⟨w1, w2, w3, w4, w5, w6, w7, .obj kv, .attach kv hsh hne rfl w8 w9,
+          fun i key => writeTop_get _ htop h.len x (.obj kv) i key⟩
+      | none =>
+        simp only
+        obtain ⟨w1, w2, w3, w4, w5, w6, w7, w8, w9⟩ := writeTop_fields
+          { u with checkers := u.checkers ++ [{ bind := [], line := u.line, idx := 0, anon := true,
+                                                 shadowed := pendingOf u.checkers x ((topScope u).get x) }] } x (.obj u.checkers.length)
+        exact ⟨w1, w2, w3, w4, w5, w6, w7, .obj u.checkers.length, .carrier hsh hne rfl w8 w9,
+          fun i key => writeTop_get _ htop h.len x (.obj u.checkers.length) i key⟩
+
+/-- pending checkers are unused imports: the value being overwritten (stored under its own name), or shadowed by it -/
+theorem pendingOf_facts {seen : List Nat} {u : UState} (h : UInv u seen) (x : Str) :
+    ∀ p ∈ pendingOf u.checkers x ((topScope u).get x),
+      (∃ d : Checker, u.checkers[p]? = some d ∧ d.used = false ∧ d.anon = false) ∧
+      (((topScope u).get x = some (.obj p) ∧ ∃ d : Checker, u.checkers[p]? = some d ∧ d.bind = x) ∨
+       ((∃ (k : Nat) (c : Checker), u.checkers[k]? = some c ∧ p ∈ c.shadowed) ∧ ∀ i key, (u.heap.get i).get key ≠ some (.obj p))) := by
+  intro p hp
+  unfold pendingOf at hp
+  cases hold : (topScope u).get x with
+  | none => rw [hold] at hp; simp at hp
+  | some old =>
+    rw [hold] at hp
+    cases old with
+    | none => simp at hp
+    | obj k =>
+      simp only at hp
+      cases hc : u.checkers[k]? with
+      | none => rw [hc] at hp; simp at hp
+      | some c =>
+        rw [hc] at hp
+        simp only [List.mem_append] at hp
+        rcases hp with hp | hp
+        · unfold unusedShadowed at hp
+          rw [hc] at hp
+          simp only [List.mem_filter] at hp
+          obtain ⟨hmem, hun⟩ := hp
+          obtain ⟨⟨d, hd, hda⟩, hr⟩ := h.shOK k c hc p hmem
+          rw [hd] at hun
+          exact ⟨⟨d, hd, by simpa using hun, hda⟩, .inr ⟨⟨k, c, hc, hmem⟩, hr⟩⟩
+        · split at hp
+          · rename_i hcond
+            simp only [List.mem_singleton] at hp
+            subst hp
+            simp only [Bool.and_eq_true, Bool.not_eq_true', nameIs, decide_eq_true_eq] at hcond
+            exact ⟨⟨c, hc, hcond.1, hcond.2.1⟩, .inl ⟨rfl, c, hc, hcond.2.2⟩⟩
+          · simp at hp
 
 /-! ### where the reference semantics records the origin of import bindings -/
 
@@ -470,7 +627,7 @@ theorem OrigOK.importFromAliases (m : Str) (leaf : Nat) : ∀ (f idx : Nat) (nam
 
 def OLink (o : List (Str × Nat × Nat)) (u : UState) : Prop :=
   ∀ n x, assocGet n o = some x →
-    ∃ (k : Nat) (c : Checker), (topScope u).get n = some (.obj k) ∧ u.checkers[k]? = some c ∧ (c.line, c.idx) = x
+    ∃ (k : Nat) (c : Checker), (topScope u).get n = some (.obj k) ∧ u.checkers[k]? = some c ∧ (c.line, c.idx) = x ∧ c.anon = false
 
 theorem assocGet_assocDel_ne {β} {k n : Str} (h : n ≠ k) (l : List (Str × β)) (v : β) :
     assocGet n (assocDel k l) = some v → assocGet n l = some v := by
@@ -577,111 +734,375 @@ theorem KeysNodup.assocSet {β} (k : Str) (v : β) {l : List (Str × β)} (hn : 
       · exact hk h
       · exact hn.1 h
 
-/-- the general store of a value `v` under a simple key at module level; `v` is `None` or a checker that is not yet
-    bound anywhere, not reported, and whose name is the key -/
+/-- how the checkers of the state after a store (pending list `P`) relate to those before -/
+structure StoreCk (P : List Nat) (u u' : UState) : Prop where
+  /-- old checkers keep everything but (for the freshly stored import checker) their `shadowed` list -/
+  fwd : ∀ (k : Nat) (c : Checker), u.checkers[k]? = some c →
+    ∃ c', u'.checkers[k]? = some c' ∧ c'.bind = c.bind ∧ c'.line = c.line ∧ c'.idx = c.idx ∧ c'.used = c.used ∧ c'.anon = c.anon
+  bwd : ∀ (k : Nat) (c' : Checker), u'.checkers[k]? = some c' →
+    (∃ c, u.checkers[k]? = some c ∧ c'.bind = c.bind ∧ c'.line = c.line ∧ c'.idx = c.idx ∧ c'.used = c.used ∧ c'.anon = c.anon ∧
+      (c'.shadowed = c.shadowed ∨ c'.shadowed = P ++ c.shadowed)) ∨
+    (k = u.checkers.length ∧ c'.anon = true ∧ c'.shadowed = P)
+  len : u.checkers.length ≤ u'.checkers.length
+
+theorem getElem?_modify_eq {α} (l : List α) (k : Nat) (f : α → α) (j : Nat) :
+    (l.modify k f)[j]? = if k = j then l[j]?.map f else l[j]? := by
+  rw [List.getElem?_modify]
+  by_cases h : k = j <;> simp [h]
+
+theorem storeCase_ck {u u' : UState} {x : Str} {v v' : Val} {P : List Nat} (hc : StoreCase u u' x v P v') : StoreCk P u u' := by
+  cases hc with
+  | report _ h1 _ => exact ⟨fun k c hk => ⟨c, by rw [h1]; exact hk, rfl, rfl, rfl, rfl, rfl⟩,
+      fun k c' hk => .inl ⟨c', by rw [h1] at hk; exact hk, rfl, rfl, rfl, rfl, rfl, .inl rfl⟩, by rw [h1]; exact Nat.le_refl _⟩
+  | plain _ _ h1 _ => exact ⟨fun k c hk => ⟨c, by rw [h1]; exact hk, rfl, rfl, rfl, rfl, rfl⟩,
+      fun k c' hk => .inl ⟨c', by rw [h1] at hk; exact hk, rfl, rfl, rfl, rfl, rfl, .inl rfl⟩, by rw [h1]; exact Nat.le_refl _⟩
+  | attach kv _ _ _ h1 _ =>
+    refine ⟨fun k c hk => ?_, fun k c' hk => ?_, by rw [h1]; simp⟩
+    · rw [h1, getElem?_modify_eq]
+      by_cases hkk : kv = k
+      · simp only [hkk, ↓reduceIte, hk, Option.map_some]; exact ⟨_, rfl, rfl, rfl, rfl, rfl, rfl⟩
+      · simp only [hkk, ↓reduceIte]; exact ⟨c, hk, rfl, rfl, rfl, rfl, rfl⟩
+    · rw [h1, getElem?_modify_eq] at hk
+      by_cases hkk : kv = k
+      · simp only [hkk, ↓reduceIte] at hk
+        cases hck : u.checkers[k]? with
+        | none => rw [hck] at hk; simp at hk
+        | some c =>
+          rw [hck] at hk
+          simp only [Option.map_some, Option.some.injEq] at hk
+          subst hk
+          exact .inl ⟨c, rfl, rfl, rfl, rfl, rfl, rfl, .inr rfl⟩
+      · simp only [hkk, ↓reduceIte] at hk; exact .inl ⟨c', hk, rfl, rfl, rfl, rfl, rfl, .inl rfl⟩
+  | carrier _ _ _ h1 _ =>
+    refine ⟨fun k c hk => ⟨c, ?_, rfl, rfl, rfl, rfl, rfl⟩, fun k c' hk => ?_, by rw [h1]; simp⟩
+    · rw [h1, List.getElem?_append_left (List.getElem?_eq_some_iff.mp hk).1]; exact hk
+    · rw [h1] at hk
+      by_cases hlt : k < u.checkers.length
+      · rw [List.getElem?_append_left hlt] at hk; exact .inl ⟨c', hk, rfl, rfl, rfl, rfl, rfl, .inl rfl⟩
+      · have hl := (List.getElem?_eq_some_iff.mp hk).1
+        simp only [List.length_append, List.length_singleton] at hl
+        have hke : k = u.checkers.length := by omega
+        subst hke
+        rw [getElem?_append_new] at hk
+        exact .inr ⟨rfl, by rw [← Option.some.inj hk]; rfl, by rw [← Option.some.inj hk]; rfl⟩
+
+/-- the value that a store puts into the scope: `None`, or a checker that no scope held, that was not reported, that no
+    checker shadows, and that is anonymous or named like the key -/
+def StoredOK (u u' : UState) (x : Str) (v' : Val) : Prop :=
+  v' = .none ∨ ∃ k1, v' = .obj k1 ∧ k1 < u'.checkers.length ∧ k1 ∉ u.unused ∧
+    (∀ i key, (u.heap.get i).get key ≠ some (.obj k1)) ∧ (∀ (k : Nat) (c : Checker), u.checkers[k]? = some c → k1 ∉ c.shadowed) ∧
+    (∀ c1, u'.checkers[k1]? = some c1 → c1.anon = true ∨ c1.bind = x)
+
+/-- the hypothesis on a stored value: `None` or a fresh import checker named like the key -/
+def FreshVal (u : UState) (x : Str) (v : Val) : Prop :=
+  v = .none ∨ ∃ k0 c0, v = .obj k0 ∧ u.checkers[k0]? = some c0 ∧ c0.bind = x ∧ c0.anon = false ∧ c0.shadowed = [] ∧
+    k0 ∉ u.unused ∧ (∀ i key, (u.heap.get i).get key ≠ some (.obj k0)) ∧
+    (∀ (k : Nat) (c : Checker), u.checkers[k]? = some c → k0 ∉ c.shadowed)
+
+theorem storedOK_of {seen : List Nat} {u u' : UState} (h : UInv u seen) {x : Str} {v v' : Val} {P : List Nat}
+    (hv : FreshVal u x v) (hcase : StoreCase u u' x v P v') : StoredOK u u' x v' := by
+  have ck := storeCase_ck hcase
+  have hvobj : ∀ k0, v = .obj k0 → v' = v → StoredOK u u' x v' := by
+    intro k0 hk0 hvv
+    rcases hv with hv | ⟨k0', c0, hv, hc0, hb0, _, _, hnu, hnr, hns⟩
+    · rw [hv] at hk0; cases hk0
+    · rw [hv] at hk0; cases hk0
+      refine .inr ⟨k0, by rw [hvv, hv], Nat.lt_of_lt_of_le (List.getElem?_eq_some_iff.mp hc0).1 ck.len, hnu, hnr, hns, fun c1 hc1 => ?_⟩
+      obtain ⟨c', hc', hb', _, _, _, _⟩ := ck.fwd k0 c0 hc0
+      rw [hc1] at hc'; cases hc'
+      exact .inr (hb'.trans hb0)
+  cases hcase with
+  | report _ _ _ => cases v with
+    | none => exact .inl rfl
+    | obj k0 => exact hvobj k0 rfl rfl
+  | plain _ _ _ _ => cases v with
+    | none => exact .inl rfl
+    | obj k0 => exact hvobj k0 rfl rfl
+  | attach kv _ _ hvv _ _ => exact hvobj kv hvv rfl
+  | carrier _ _ _ h1 _ =>
+    refine .inr ⟨_, rfl, by rw [h1]; simp, fun hm => ?_, fun i key hc => ?_, fun k c hc hm => ?_, fun c1 hc1 => ?_⟩
+    · obtain ⟨⟨c, hc, _⟩, _⟩ := h.unusedOK _ hm
+      have := (List.getElem?_eq_some_iff.mp hc).1; omega
+    · have := (h.valid i key _ hc).2; omega
+    · obtain ⟨⟨d, hd, _⟩, _⟩ := h.shOK k c hc _ hm
+      have := (List.getElem?_eq_some_iff.mp hd).1; omega
+    · rw [h1, getElem?_append_new] at hc1
+      left; rw [← Option.some.inj hc1]; rfl
+
 theorem uinv_store {seen : List Nat} {u : UState} (h : UInv u seen) {x : Str} (hx : simpleName x = true) (v : Val)
-    (hv : v = .none ∨ ∃ k0 c0, v = .obj k0 ∧ u.checkers[k0]? = some c0 ∧ c0.bind = x ∧ k0 ∉ u.unused ∧
-        ∀ i key, (u.heap.get i).get key ≠ some (.obj k0)) :
-    UInv (storeU u x v) seen := by
-  obtain ⟨s1, s2, s3, s4, s5, s6, s7, hget, hun⟩ := storeU_simple h hx v
-  have hts : ∀ key, (topScope (storeU u x v)).get key = if key = x then some v else (topScope u).get key := by
+    (hv : FreshVal u x v) : UInv (storeU u x v) seen := by
+  obtain ⟨s1, s2, s3, _, _, _, _, v', hcase, hget⟩ := storeU_simple h hx v
+  have hP := pendingOf_facts h x
+  have ck := storeCase_ck hcase
+  have hv' := storedOK_of h hv hcase
+  have hts : ∀ key, (topScope (storeU u x v)).get key = if key = x then some v' else (topScope u).get key := by
     intro key; unfold topScope; rw [hget]; simp
-  refine ⟨by rw [s1]; exact h.stack, by rw [s2]; exact h.len, by rw [s3]; exact h.inFunc, ?_, ?_, ?_, ?_, ?_, ?_⟩
+  -- the shadowed list of the import checker that is being stored is empty before the store
+  have hsh0 : ∀ (k : Nat) (c : Checker) (c' : Checker), u.checkers[k]? = some c → (storeU u x v).checkers[k]? = some c' →
+      c'.shadowed = pendingOf u.checkers x ((topScope u).get x) ++ c.shadowed → c'.shadowed ≠ c.shadowed → c.shadowed = [] := by
+    intro k c c' hc hc' _ hne
+    cases hcase with
+    | report _ h1 _ => rw [h1, hc] at hc'; cases hc'; exact absurd rfl hne
+    | plain _ _ h1 _ => rw [h1, hc] at hc'; cases hc'; exact absurd rfl hne
+    | carrier _ _ _ h1 _ =>
+      rw [h1, List.getElem?_append_left (List.getElem?_eq_some_iff.mp hc).1, hc] at hc'; cases hc'; exact absurd rfl hne
+    | attach kv _ _ hvv h1 _ =>
+      rw [h1, getElem?_modify_eq] at hc'
+      by_cases hkk : kv = k
+      · subst hkk
+        rcases hv with hv | ⟨k0, c0, hv, hc0, _, _, hs0, _⟩
+        · rw [hv] at hvv; cases hvv
+        · rw [hv] at hvv; cases hvv
+          rw [hc] at hc0; cases hc0; exact hs0
+      · simp only [hkk, ↓reduceIte] at hc'
+        rw [hc] at hc'; cases hc'; exact absurd rfl hne
+  -- no pending checker is held by a scope after the store
+  have hPfree : ∀ p ∈ pendingOf u.checkers x ((topScope u).get x), ∀ i key, ((storeU u x v).heap.get i).get key ≠ some (.obj p) := by
+    intro p hp i key
+    obtain ⟨⟨d, hd, _, hda⟩, hroot⟩ := hP p hp
+    rw [hget]
+    split
+    · rcases hv' with hv' | ⟨k1, hv', _, _, hnr, hns, _⟩
+      · rw [hv']; simp
+      · rw [hv']
+        intro hc
+        simp only [Option.some.injEq, Val.obj.injEq] at hc
+        subst hc
+        rcases hroot with ⟨hr, _⟩ | ⟨⟨k, c, hkc, hm⟩, _⟩
+        · exact hnr 4 x (by unfold topScope at hr; exact hr)
+        · exact hns k c hkc hm
+    · rename_i hne
+      rcases hroot with ⟨hr, d2, hd2, hb2⟩ | ⟨_, hr⟩
+      · intro hc
+        obtain ⟨hi4, _⟩ := h.valid i key p hc
+        subst hi4
+        rw [hd] at hd2; cases hd2
+        rcases h.bindKey key p d (by unfold topScope; exact hc) hd with hb | hb
+        · rw [hda] at hb; cases hb
+        · exact hne ⟨rfl, by rw [← hb, hb2]⟩
+      · exact hr i key
+  refine ⟨by rw [s1]; exact h.stack, by rw [s2]; exact h.len, by rw [s3]; exact h.inFunc, ?_, ?_, ?_, ?_, ?_, ?_, ?_⟩
   · intro key w hw
     rw [hts] at hw
     by_cases hk : key = x
     · rw [hk]; exact hx
     · rw [if_neg hk] at hw; exact h.simpleKeys key w hw
-  · -- reported checkers are unused and unreachable
-    have hold : ∀ k ∈ u.unused, (∃ c, (storeU u x v).checkers[k]? = some c ∧ c.used = false) ∧
+  · -- reported checkers
+    have hold : ∀ k ∈ u.unused, (∃ c, (storeU u x v).checkers[k]? = some c ∧ c.anon = false) ∧
         ∀ i key, ((storeU u x v).heap.get i).get key ≠ some (.obj k) := by
       intro k hk
-      obtain ⟨hc, hr⟩ := h.unusedOK k hk
-      refine ⟨by rw [s5]; exact hc, fun i key => ?_⟩
+      obtain ⟨⟨c, hc, hca⟩, hr⟩ := h.unusedOK k hk
+      obtain ⟨c', hc', _, _, _, _, ha'⟩ := ck.fwd k c hc
+      refine ⟨⟨c', hc', by rw [ha']; exact hca⟩, fun i key => ?_⟩
       rw [hget]
       split
-      · rcases hv with hv | ⟨k0, c0, hv, _, _, hk0, _⟩
-        · rw [hv]; simp
-        · rw [hv]; intro hc'; simp only [Option.some.injEq, Val.obj.injEq] at hc'; exact hk0 (hc' ▸ hk)
+      · rcases hv' with hv' | ⟨k1, hv', _, hnu, _⟩
+        · rw [hv']; simp
+        · rw [hv']; intro hcon; simp only [Option.some.injEq, Val.obj.injEq] at hcon; exact hnu (hcon ▸ hk)
       · exact hr i key
+    have hpend : ∀ k ∈ pendingOf u.checkers x ((topScope u).get x), (∃ c, (storeU u x v).checkers[k]? = some c ∧ c.anon = false) ∧
+        ∀ i key, ((storeU u x v).heap.get i).get key ≠ some (.obj k) := by
+      intro k hk
+      obtain ⟨⟨d, hd, _, hda⟩, _⟩ := hP k hk
+      obtain ⟨d', hd', _, _, _, _, ha'⟩ := ck.fwd k d hd
+      exact ⟨⟨d', hd', by rw [ha']; exact hda⟩, hPfree k hk⟩
     intro k hk
-    rcases hun with hun | ⟨kold, cold, hkold, hcold, hcu, hun⟩
-    · rw [hun] at hk; exact hold k hk
-    · rw [hun] at hk
+    cases hcase with
+    | report _ _ h2 =>
+      rw [h2] at hk
       rcases List.mem_append.mp hk with hk | hk
       · exact hold k hk
-      · simp only [List.mem_singleton] at hk; subst hk
-        refine ⟨⟨cold, by rw [s5]; exact hcold, hcu⟩, fun i key => ?_⟩
-        rw [hget]
-        split
-        · rcases hv with hv | ⟨k0, c0, hv, _, _, _, hk0r⟩
-          · rw [hv]; simp
-          · rw [hv]; intro hc'
-            simp only [Option.some.injEq, Val.obj.injEq] at hc'
-            subst hc'
-            exact hk0r 4 x (by unfold topScope at hkold; exact hkold)
-        · rename_i hne
-          intro hc'
-          obtain ⟨hi4, _⟩ := h.valid i key k hc'
-          subst hi4
-          have hb := h.bindKey key k cold (by unfold topScope; exact hc') hcold
-          have hb2 := h.bindKey x k cold hkold hcold
-          exact hne ⟨rfl, by rw [← hb, hb2]⟩
-  · rw [s5]; exact h.uniq
-  · rw [s5]; exact h.seenLines
+      · exact hpend k hk
+    | plain _ _ _ h2 => rw [h2] at hk; exact hold k hk
+    | attach _ _ _ _ _ h2 => rw [h2] at hk; exact hold k hk
+    | carrier _ _ _ _ h2 => rw [h2] at hk; exact hold k hk
+  · -- shadowed checkers
+    intro k c' hc' j hj
+    have hjold : ∀ (k0 : Nat) (c0 : Checker), u.checkers[k0]? = some c0 → j ∈ c0.shadowed →
+        (∃ d, (storeU u x v).checkers[j]? = some d ∧ d.anon = false) ∧ ∀ i key, ((storeU u x v).heap.get i).get key ≠ some (.obj j) := by
+      intro k0 c0 hc0 hj0
+      obtain ⟨⟨d, hd, hda⟩, hr⟩ := h.shOK k0 c0 hc0 j hj0
+      obtain ⟨d', hd', _, _, _, _, ha'⟩ := ck.fwd j d hd
+      refine ⟨⟨d', hd', by rw [ha']; exact hda⟩, fun i key => ?_⟩
+      rw [hget]
+      split
+      · rcases hv' with hv' | ⟨k1, hv', _, _, _, hns, _⟩
+        · rw [hv']; simp
+        · rw [hv']; intro hcon; simp only [Option.some.injEq, Val.obj.injEq] at hcon
+          exact hns k0 c0 hc0 (hcon ▸ hj0)
+      · exact hr i key
+    have hjP : j ∈ pendingOf u.checkers x ((topScope u).get x) →
+        (∃ d, (storeU u x v).checkers[j]? = some d ∧ d.anon = false) ∧ ∀ i key, ((storeU u x v).heap.get i).get key ≠ some (.obj j) := by
+      intro hjp
+      obtain ⟨⟨d, hd, _, hda⟩, _⟩ := hP j hjp
+      obtain ⟨d', hd', _, _, _, _, ha'⟩ := ck.fwd j d hd
+      exact ⟨⟨d', hd', by rw [ha']; exact hda⟩, hPfree j hjp⟩
+    rcases ck.bwd k c' hc' with ⟨c, hc, _, _, _, _, _, hsh⟩ | ⟨_, _, hsh⟩
+    · rcases hsh with hsh | hsh
+      · rw [hsh] at hj; exact hjold k c hc hj
+      · rw [hsh] at hj
+        rcases List.mem_append.mp hj with hj | hj
+        · exact hjP hj
+        · exact hjold k c hc hj
+    · rw [hsh] at hj; exact hjP hj
+  · intro k k' c c' hc hc' ha ha' hid
+    rcases ck.bwd k c hc with ⟨d, hd, _, hl, hi, _, hda, _⟩ | ⟨_, hanon, _⟩
+    · rcases ck.bwd k' c' hc' with ⟨d', hd', _, hl', hi', _, hda', _⟩ | ⟨_, hanon', _⟩
+      · exact h.uniq k k' d d' hd hd' (by rw [← hda]; exact ha) (by rw [← hda']; exact ha') (by rw [← hl, ← hi, ← hl', ← hi']; exact hid)
+      · rw [hanon'] at ha'; cases ha'
+    · rw [hanon] at ha; cases ha
+  · intro k c hc ha
+    rcases ck.bwd k c hc with ⟨d, hd, _, hl, _, _, hda, _⟩ | ⟨_, hanon, _⟩
+    · rw [hl]; exact h.seenLines k d hd (by rw [← hda]; exact ha)
+    · rw [hanon] at ha; cases ha
   · intro i key k hk
     rw [hget] at hk
-    rw [s5]
     split at hk
     · rename_i hc
-      rcases hv with hv | ⟨k0, c0, hv, hc0, _, _, _⟩
-      · rw [hv] at hk; cases hk
-      · rw [hv] at hk
+      rcases hv' with hv' | ⟨k1, hv', hlt, _⟩
+      · rw [hv'] at hk; cases hk
+      · rw [hv'] at hk
         simp only [Option.some.injEq, Val.obj.injEq] at hk
         subst hk
-        exact ⟨hc.1, (List.getElem?_eq_some_iff.mp hc0).1⟩
-    · exact h.valid i key k hk
+        exact ⟨hc.1, hlt⟩
+    · obtain ⟨a, b⟩ := h.valid i key k hk
+      exact ⟨a, Nat.lt_of_lt_of_le b ck.len⟩
   · intro key k c hk hc
     rw [hts] at hk
-    rw [s5] at hc
     by_cases hkx : key = x
     · rw [if_pos hkx] at hk
-      rcases hv with hv | ⟨k0, c0, hv, hc0, hb0, _, _⟩
-      · rw [hv] at hk; cases hk
-      · rw [hv] at hk
+      rcases hv' with hv' | ⟨k1, hv', _, _, _, _, hb1⟩
+      · rw [hv'] at hk; cases hk
+      · rw [hv'] at hk
         simp only [Option.some.injEq, Val.obj.injEq] at hk
         subst hk
-        rw [hc0] at hc; cases hc
-        rw [hkx]; exact hb0
-    · rw [if_neg hkx] at hk; exact h.bindKey key k c hk hc
+        rw [hkx]; exact hb1 c hc
+    · rw [if_neg hkx] at hk
+      rcases ck.bwd k c hc with ⟨d, hd, hb, _, _, _, hda, _⟩ | ⟨hke, _, _⟩
+      · rw [hb, hda]; exact h.bindKey key k d hk hd
+      · have := (h.valid 4 key k (by unfold topScope at hk; exact hk)).2
+        omega
 
-/-- assignment to a simple name: the origin of `x` is forgotten on the run-time side, `x ↦ None` on the analysis side -/
+/-- assignment to a simple name: the origin of `x` is forgotten on the run-time side; on the analysis side `x` is bound to
+    `None` or to an anonymous carrier -/
 theorem olink_store_none {seen : List Nat} {u : UState} (h : UInv u seen) {x : Str} (hx : simpleName x = true)
     {o : List (Str × Nat × Nat)} (ho : OLink o u) (hnd : KeysNodup o) : OLink (assocDel x o) (storeU u x .none) := by
-  obtain ⟨_, _, _, _, s5, _, _, hget, _⟩ := storeU_simple h hx .none
+  obtain ⟨_, _, _, _, _, _, _, v', hcase, hget⟩ := storeU_simple h hx .none
+  have ck := storeCase_ck hcase
   intro n y hy
   by_cases hn : n = x
   · subst hn
     rw [assocGet_assocDel_self n o hnd] at hy; cases hy
-  · obtain ⟨k, c, hk, hc, hid⟩ := ho n y (assocGet_assocDel_ne hn o y hy)
-    refine ⟨k, c, ?_, by rw [s5]; exact hc, hid⟩
+  · obtain ⟨k, c, hk, hc, hid, ha⟩ := ho n y (assocGet_assocDel_ne hn o y hy)
+    obtain ⟨c', hc', _, hl, hi, _, ha'⟩ := ck.fwd k c hc
+    refine ⟨k, c', ?_, hc', by rw [hl, hi]; exact hid, by rw [ha']; exact ha⟩
     unfold topScope at hk ⊢
     rw [hget]; simp [hn, hk]
+
+theorem pendingOf_ne_nil {cs : List Checker} {key : Str} {old : Option Val} (h : pendingOf cs key old ≠ []) :
+    ∃ k, old = some (.obj k) := by
+  unfold pendingOf at h
+  cases old with
+  | none => exact absurd rfl h
+  | some v => cases v with
+    | none => exact absurd rfl h
+    | obj k => exact ⟨k, rfl⟩
+
+theorem writeTop_eq (st : UState) (x : Str) (v : Val) (htop : st.stack.top = 4) :
+    writeTop st x v = { st with heap := st.heap.update 4 (·.set x v) } := by
+  unfold writeTop; rw [htop]
+
+/-- the shape of the state after a store of a simple key while the top scope is cell 4: only cell 4, the checkers and the
+    report change; the value written is the given one, or an anonymous carrier in place of `None` over an old checker -/
+theorem storeU_shape (u : UState) (x : Str) (hx : simpleName x = true) (v : Val) (htop : u.stack.top = 4) :
+    ∃ (v' : Val) (cs' : List Checker) (un' : List Nat),
+      storeU u x v = { u with heap := u.heap.update 4 (·.set x v'), checkers := cs', unused := un' } ∧
+      (v' = v ∨ (v = .none ∧ ∃ k k', v' = .obj k ∧ (u.heap.get 4).get x = some (.obj k'))) := by
+  have hla : lookupAncestors u x = u := by unfold lookupAncestors; rw [prefixes_simple hx]; rfl
+  unfold storeU
+  simp only [hla, htop]
+  split
+  · split
+    · exact ⟨v, u.checkers, u.unused, writeTop_eq u x v htop, .inl rfl⟩
+    · rename_i hpe
+      have hne : pendingOf u.checkers x ((u.heap.get 4).get x) ≠ [] := by
+        intro hc; rw [hc] at hpe; simp at hpe
+      obtain ⟨k', hk'⟩ := pendingOf_ne_nil hne
+      cases v with
+      | obj kv => exact ⟨.obj kv, _, u.unused, writeTop_eq _ x _ htop, .inl rfl⟩
+      | none => exact ⟨.obj u.checkers.length, _, u.unused, writeTop_eq _ x _ htop, .inr ⟨rfl, _, k', rfl, hk'⟩⟩
+  · exact ⟨v, u.checkers, _, writeTop_eq _ x v htop, .inl rfl⟩
+
+/-- a store never un-uses a checker, and what it reports was unused -/
+theorem storeU_persist {seen : List Nat} {u : UState} (h : UInv u seen) {x : Str} (hx : simpleName x = true) (v : Val) :
+    UsedPersist u (storeU u x v) := by
+  obtain ⟨_, _, _, _, _, _, _, v', hcase, _⟩ := storeU_simple h hx v
+  have ck := storeCase_ck hcase
+  have hP := pendingOf_facts h x
+  refine ⟨fun k c hc hu => ?_, fun k hk => ?_⟩
+  · obtain ⟨c', hc', _, hl, hi, hu', ha⟩ := ck.fwd k c hc
+    exact ⟨c', hc', by rw [hu']; exact hu, hl, hi, ha⟩
+  · cases hcase with
+    | report _ _ e2 =>
+      rw [e2] at hk
+      rcases List.mem_append.mp hk with hk | hk
+      · exact .inl hk
+      · right
+        intro c hc
+        obtain ⟨⟨e, he, heu, _⟩, _⟩ := hP k hk
+        rw [hc] at he; cases he; exact heu
+    | plain _ _ _ e2 => rw [e2] at hk; exact .inl hk
+    | attach _ _ _ _ _ e2 => rw [e2] at hk; exact .inl hk
+    | carrier _ _ _ _ e2 => rw [e2] at hk; exact .inl hk
 
 theorem modify_append_last {α} (l : List α) (x : α) (f : α → α) : (l ++ [x]).modify l.length f = l ++ [f x] := by
   induction l with
   | nil => rfl
   | cons a r ih => simp only [List.cons_append, List.length_cons, List.modify_succ_cons, ih]
 
+theorem modify_id_of {α} (l : List α) (k : Nat) (f : α → α) (h : ∀ a, l[k]? = some a → f a = a) : l.modify k f = l := by
+  apply List.ext_getElem?
+  intro j
+  rw [getElem?_modify_eq]
+  by_cases hk : k = j
+  · subst hk
+    simp only [↓reduceIte]
+    cases hl : l[k]? with
+    | none => rfl
+    | some a => simp [h a hl]
+  · simp [hk]
+
+theorem unuse_id (d : Checker) (h : d.used = false) : { d with used := false } = d := by
+  cases d; simp_all
+
+/-- resetting the `used` flags of checkers that are unused anyway changes nothing -/
+theorem resetUsed_id (cs : List Checker) (k : Nat) (c : Checker) (hc : cs[k]? = some c) (hu : c.used = false)
+    (hs : ∀ j ∈ c.shadowed, ∀ d, cs[j]? = some d → d.used = false) : resetUsed cs k = cs := by
+  unfold resetUsed
+  have h1 : cs.modify k (fun c => { c with used := false }) = cs :=
+    modify_id_of cs k _ (fun a ha => by rw [hc] at ha; cases ha; exact unuse_id c hu)
+  simp only [h1, hc]
+  have : ∀ (l : List Nat), (∀ j ∈ l, ∀ d, cs[j]? = some d → d.used = false) →
+      l.foldl (fun cs j => cs.modify j (fun d => { d with used := false })) cs = cs := by
+    intro l
+    induction l with
+    | nil => intro _; rfl
+    | cons j r ih =>
+      intro hl
+      simp only [List.foldl_cons]
+      rw [modify_id_of cs j _ (fun a ha => unuse_id a (hl j (List.mem_cons_self ..) a ha))]
+      exact ih (fun j' hj' => hl j' (List.mem_cons_of_mem _ hj'))
+  exact this c.shadowed hs
+
 /-- one alias of a simple import (`import m`, `import a.b as n`, `from m import x [as y]`) at module level -/
 theorem alias_step {seen : List Nat} {u : UState} (h : UInv u seen) {b : Str} (hb : simpleName b = true) (idx : Nat)
-    (hfresh : ∀ (k : Nat) (c : Checker), u.checkers[k]? = some c → c.line = u.line → c.idx < idx)
+    (hfresh : ∀ (k : Nat) (c : Checker), u.checkers[k]? = some c → c.anon = false → c.line = u.line → c.idx < idx)
     (hseen : u.line ∈ seen) {o : List (Str × Nat × Nat)} (ho : OLink o u) :
     let u' := stepU u (.importAlias [b] b idx false)
     UInv u' seen ∧ OLink (assocSet b (u.line, idx) o) u' ∧ u'.line = u.line ∧
     (∀ (k : Nat) (c : Checker), u.checkers[k]? = some c → u'.checkers[k]? = some c) ∧
-    (∀ (k : Nat) (c : Checker), u'.checkers[k]? = some c → c.line = u'.line → c.idx < idx + 1) ∧
-    u'.unused.length ≥ 0 := by
+    (∀ (k : Nat) (c : Checker), u'.checkers[k]? = some c → c.anon = false → c.line = u'.line → c.idx < idx + 1) ∧
+    (∀ k ∈ u'.unused, k ∈ u.unused ∨ ∀ c, u.checkers[k]? = some c → c.used = false) := by
   intro u'
   let new : Checker := { bind := b, line := u.line, idx := idx }
   let u1 : UState := { u with checkers := u.checkers ++ [new] }
@@ -703,27 +1124,32 @@ theorem alias_step {seen : List Nat} {u : UState} (h : UInv u seen) {b : Str} (h
       subst hke
       rw [hnew] at hc; exact ⟨rfl, (Option.some.inj hc).symm⟩
   have h1 : UInv u1 seen := by
-    refine ⟨h.stack, h.len, h.inFunc, h.simpleKeys, ?_, ?_, ?_, ?_, ?_⟩
+    refine ⟨h.stack, h.len, h.inFunc, h.simpleKeys, ?_, ?_, ?_, ?_, ?_, ?_⟩
     · intro k hk
-      obtain ⟨⟨c, hc, hcu⟩, hr⟩ := h.unusedOK k hk
-      exact ⟨⟨c, hold k c hc, hcu⟩, hr⟩
-    · intro k k' c c' hc hc' hid
+      obtain ⟨⟨c, hc, hca⟩, hr⟩ := h.unusedOK k hk
+      exact ⟨⟨c, hold k c hc, hca⟩, hr⟩
+    · intro k c hc j hj
+      rcases hsplit k c hc with hc0 | ⟨_, hcn⟩
+      · obtain ⟨⟨d, hd, hda⟩, hr⟩ := h.shOK k c hc0 j hj
+        exact ⟨⟨d, hold j d hd, hda⟩, hr⟩
+      · rw [hcn] at hj; simp [new] at hj
+    · intro k k' c c' hc hc' ha ha' hid
       rcases hsplit k c hc with hc0 | ⟨hk, hcn⟩ <;> rcases hsplit k' c' hc' with hc0' | ⟨hk', hcn'⟩
-      · exact h.uniq k k' c c' hc0 hc0' hid
+      · exact h.uniq k k' c c' hc0 hc0' ha ha' hid
       · subst hcn'
         simp only [Prod.mk.injEq] at hid
-        have := hfresh k c hc0 hid.1
+        have := hfresh k c hc0 ha hid.1
         have h2 : c.idx = idx := hid.2
         omega
       · subst hcn
         simp only [Prod.mk.injEq] at hid
-        have := hfresh k' c' hc0' hid.1.symm
+        have := hfresh k' c' hc0' ha' hid.1.symm
         have h2 : idx = c'.idx := hid.2
         omega
       · rw [hk, hk']
-    · intro k c hc
+    · intro k c hc ha
       rcases hsplit k c hc with hc0 | ⟨_, hcn⟩
-      · exact h.seenLines k c hc0
+      · exact h.seenLines k c hc0 ha
       · rw [hcn]; exact hseen
     · intro i key k hk
       obtain ⟨a, b'⟩ := h.valid i key k hk
@@ -733,81 +1159,105 @@ theorem alias_step {seen : List Nat} {u : UState} (h : UInv u seen) {b : Str} (h
       rcases hsplit k c hc with hc0 | ⟨hke, _⟩
       · exact h.bindKey key k c hk hc0
       · omega
-  have hnotun : u.checkers.length ∉ u1.unused := by
-    intro hm
-    obtain ⟨⟨c, hc, _⟩, _⟩ := h.unusedOK _ hm
-    have := (List.getElem?_eq_some_iff.mp hc).1
-    omega
-  have hunreach : ∀ i key, (u1.heap.get i).get key ≠ some (.obj u.checkers.length) := by
-    intro i key hc
-    obtain ⟨_, hlt⟩ := h.valid i key _ hc
-    omega
-  have h2 := uinv_store h1 hb (.obj u.checkers.length) (.inr ⟨_, new, rfl, hnew, rfl, hnotun, hunreach⟩)
-  obtain ⟨s1, s2, s3, s4, s5, s6, s7, hget, hun⟩ := storeU_simple h1 hb (.obj u.checkers.length)
-  have hu' : u' = { storeU u1 b (.obj u.checkers.length) with
-      checkers := (storeU u1 b (.obj u.checkers.length)).checkers.modify u.checkers.length (fun c => { c with used := false }) } := by
-    simp only [u', stepU, Bool.false_eq_true, ↓reduceIte, List.foldl_cons, List.foldl_nil]
-    rfl
-  have hcs : u'.checkers = u.checkers ++ [new] := by
-    rw [hu']
-    show (storeU u1 b (.obj u.checkers.length)).checkers.modify u.checkers.length _ = _
-    rw [s5]
-    show (u.checkers ++ [new]).modify u.checkers.length _ = _
-    rw [modify_append_last]
-  have hsame : u' = { storeU u1 b (.obj u.checkers.length) with checkers := (storeU u1 b (.obj u.checkers.length)).checkers } := by
-    rw [hu']
-    have hm : (storeU u1 b (.obj u.checkers.length)).checkers.modify u.checkers.length (fun c => { c with used := false })
-        = (storeU u1 b (.obj u.checkers.length)).checkers := by
-      rw [s5]
-      show (u.checkers ++ [new]).modify u.checkers.length _ = u.checkers ++ [new]
-      rw [modify_append_last]
-    rw [hm]
-  have heq : u' = storeU u1 b (.obj u.checkers.length) := by rw [hsame]
+  have hfv : FreshVal u1 b (.obj u.checkers.length) := by
+    refine .inr ⟨_, new, rfl, hnew, rfl, rfl, rfl, fun hm => ?_, fun i key hc => ?_, fun k c hc hm => ?_⟩
+    · obtain ⟨⟨c, hc, _⟩, _⟩ := h.unusedOK _ hm
+      have := (List.getElem?_eq_some_iff.mp hc).1; omega
+    · have := (h.valid i key _ hc).2; omega
+    · obtain ⟨⟨d, hd, _⟩, _⟩ := h1.shOK k c hc _ hm
+      rcases hsplit _ d hd with hd0 | ⟨_, _⟩
+      · have := (List.getElem?_eq_some_iff.mp hd0).1; omega
+      · rcases hsplit k c hc with hc0 | ⟨_, hcn⟩
+        · obtain ⟨⟨e, he, _⟩, _⟩ := h.shOK k c hc0 _ hm
+          have := (List.getElem?_eq_some_iff.mp he).1; omega
+        · rw [hcn] at hm; simp [new] at hm
+  have h2 := uinv_store h1 hb (.obj u.checkers.length) hfv
+  obtain ⟨s1, s2, s3, s4, _, _, _, v', hcase, hget⟩ := storeU_simple h1 hb (.obj u.checkers.length)
+  have ck := storeCase_ck hcase
+  have hP := pendingOf_facts h1 b
+  -- the value stored is the new checker, unused, shadowing only unused checkers
+  have hv' : v' = .obj u.checkers.length := by
+    cases hcase with
+    | report _ _ _ => rfl
+    | plain _ _ _ _ => rfl
+    | attach _ _ _ _ _ _ => rfl
+    | carrier _ _ hvn _ _ => cases hvn
+  obtain ⟨c2, hc2, hb2, hl2, hi2, hu2, ha2⟩ := ck.fwd _ new hnew
+  have hsh2 : ∀ j ∈ c2.shadowed, ∀ d, (storeU u1 b (.obj u.checkers.length)).checkers[j]? = some d → d.used = false := by
+    intro j hj d hd
+    rcases ck.bwd _ c2 hc2 with ⟨c, hc, _, _, _, _, _, hsh⟩ | ⟨_, han, _⟩
+    · rw [hnew] at hc; cases hc
+      have hjP : j ∈ pendingOf u1.checkers b ((topScope u1).get b) := by
+        rcases hsh with hsh | hsh
+        · rw [hsh] at hj; simp [new] at hj
+        · rw [hsh] at hj; simpa [new] using hj
+      obtain ⟨⟨e, he, heu, _⟩, _⟩ := hP j hjP
+      obtain ⟨e', he', _, _, _, hu', _⟩ := ck.fwd j e he
+      rw [hd] at he'; cases he'
+      rw [hu']; exact heu
+    · rw [ha2] at han; cases han
+  have hreset : resetUsed (storeU u1 b (.obj u.checkers.length)).checkers u.checkers.length =
+      (storeU u1 b (.obj u.checkers.length)).checkers := resetUsed_id _ _ c2 hc2 (by rw [hu2]) hsh2
+  have heq : u' = storeU u1 b (.obj u.checkers.length) := by
+    have hu' : u' = { storeU u1 b (.obj u.checkers.length) with
+        checkers := resetUsed (storeU u1 b (.obj u.checkers.length)).checkers u.checkers.length } := by
+      simp only [u', stepU, Bool.false_eq_true, ↓reduceIte, List.foldl_cons, List.foldl_nil]
+      rfl
+    rw [hu', hreset]
   rw [heq]
-  refine ⟨h2, ?_, s4, fun k c hc => by rw [s5]; exact hold k c hc, ?_, Nat.zero_le _⟩
+  -- old checkers are untouched
+  have hkeep : ∀ (k : Nat) (c : Checker), u.checkers[k]? = some c →
+      (storeU u1 b (.obj u.checkers.length)).checkers[k]? = some c := by
+    intro k c hc
+    have hk := (List.getElem?_eq_some_iff.mp hc).1
+    cases hcase with
+    | report _ e1 _ => rw [e1]; exact hold k c hc
+    | plain _ _ e1 _ => rw [e1]; exact hold k c hc
+    | attach kv _ _ hvv e1 _ =>
+      cases hvv
+      rw [e1, getElem?_modify_eq, if_neg (by omega)]; exact hold k c hc
+    | carrier _ _ hvn _ _ => cases hvn
+  refine ⟨h2, ?_, s4, hkeep, ?_, ?_⟩
   · intro n y hy
     by_cases hn : n = b
     · subst hn
       rw [assocGet_assocSet_eq] at hy
-      refine ⟨u.checkers.length, new, ?_, by rw [s5]; exact hnew, by simpa using hy⟩
-      unfold topScope; rw [hget]; simp
+      refine ⟨u.checkers.length, c2, ?_, hc2, by rw [hl2, hi2]; simpa [new] using hy, by rw [ha2]⟩
+      unfold topScope; rw [hget, hv']; simp
     · rw [assocGet_assocSet_ne hn] at hy
-      obtain ⟨k, c, hk, hc, hid⟩ := ho n y hy
-      refine ⟨k, c, ?_, by rw [s5]; exact hold k c hc, hid⟩
+      obtain ⟨k, c, hk, hc, hid, ha⟩ := ho n y hy
+      refine ⟨k, c, ?_, hkeep k c hc, hid, ha⟩
       unfold topScope at hk ⊢
       rw [hget]; simp [hn]; exact hk
-  · intro k c hc hl
-    rw [s5] at hc
+  · intro k c hc ha hl
     rw [s4] at hl
-    rcases hsplit k c hc with hc0 | ⟨_, hcn⟩
-    · have := hfresh k c hc0 hl; omega
-    · rw [hcn]; show idx < idx + 1; omega
+    rcases ck.bwd k c hc with ⟨d, hd, _, hl', hi', _, hda, _⟩ | ⟨_, han, _⟩
+    · rcases hsplit k d hd with hd0 | ⟨_, hdn⟩
+      · have := hfresh k d hd0 (by rw [← hda]; exact ha) (by rw [← hl']; exact hl)
+        rw [hi']; omega
+      · rw [hi', hdn]; show idx < idx + 1; omega
+    · rw [han] at ha; cases ha
+  · intro k hk
+    cases hcase with
+    | report _ _ e2 =>
+      rw [e2] at hk
+      rcases List.mem_append.mp hk with hk | hk
+      · exact .inl hk
+      · right
+        intro c hc
+        obtain ⟨⟨e, he, heu, _⟩, _⟩ := hP k hk
+        rw [hold k c hc] at he; cases he; exact heu
+    | plain _ _ _ e2 => rw [e2] at hk; exact .inl hk
+    | attach _ _ _ _ _ e2 => rw [e2] at hk; exact .inl hk
+    | carrier _ _ hvn _ _ => cases hvn
 
 /-! ### statements, analysis side -/
 
-/-- once used, always used (and the identity of a checker never changes) -/
-def UsedPersist (u u' : UState) : Prop :=
-  ∀ (k : Nat) (c : Checker), u.checkers[k]? = some c → c.used = true →
-    ∃ c', u'.checkers[k]? = some c' ∧ c'.used = true ∧ c'.line = c.line ∧ c'.idx = c.idx
-
-theorem UsedPersist.refl (u : UState) : UsedPersist u u := fun _ c hc hu => ⟨c, hc, hu, rfl, rfl⟩
-
-theorem UsedPersist.trans {a b c : UState} (h1 : UsedPersist a b) (h2 : UsedPersist b c) : UsedPersist a c := by
-  intro k x hx hu
-  obtain ⟨y, hy, hyu, hl, hi⟩ := h1 k x hx hu
-  obtain ⟨z, hz, hzu, hl2, hi2⟩ := h2 k y hy hyu
-  exact ⟨z, hz, hzu, hl2.trans hl, hi2.trans hi⟩
-
-theorem Marks.persist {u u' : UState} (m : Marks u u') : UsedPersist u u' := fun _ _ hc hu => m.usedStays hc hu
-
-theorem UsedPersist.ofEq {u u' : UState} (h : u'.checkers = u.checkers) : UsedPersist u u' :=
-  fun _ c hc hu => ⟨c, by rw [h]; exact hc, hu, rfl, rfl⟩
-
 theorem UInv.seenMono {u : UState} {seen seen' : List Nat} (h : UInv u seen) (hs : ∀ l ∈ seen, l ∈ seen') : UInv u seen' :=
-  { h with seenLines := fun k c hc => hs _ (h.seenLines k c hc) }
+  { h with seenLines := fun k c hc ha => hs _ (h.seenLines k c hc ha) }
 
 theorem UInv.setLine {u : UState} {seen : List Nat} (h : UInv u seen) (l : Nat) : UInv { u with line := l } seen :=
-  ⟨h.stack, h.len, h.inFunc, h.simpleKeys, h.unusedOK, h.uniq, h.seenLines, h.valid, h.bindKey⟩
+  ⟨h.stack, h.len, h.inFunc, h.simpleKeys, h.unusedOK, h.shOK, h.uniq, h.seenLines, h.valid, h.bindKey⟩
 
 /-- `_visit__all__` at module level only marks (and defers) -/
 theorem allNamesU (names : List Str) : ∀ (u : UState), u.inFunc = false →
@@ -883,20 +1333,21 @@ theorem cAlias_simple_from {a : Alias} {m : Str} (idx : Nat) (hok : fromAliasOK 
 /-- all aliases of a simple import statement -/
 theorem aliasesU {seen : List Nat} (m : Option Str) : ∀ (names : List Alias) (idx : Nat) (u : UState), UInv u seen →
     (∀ a ∈ names, ∀ i, cAlias m i a = .importAlias [aliasBinds a] (aliasBinds a) i false ∧ simpleName (aliasBinds a) = true) →
-    (∀ (k : Nat) (c : Checker), u.checkers[k]? = some c → c.line = u.line → c.idx < idx) → u.line ∈ seen →
+    (∀ (k : Nat) (c : Checker), u.checkers[k]? = some c → c.anon = false → c.line = u.line → c.idx < idx) → u.line ∈ seen →
     ∀ (o : List (Str × Nat × Nat)), OLink o u →
     UInv (runOpsU u (cAliases m idx names)) seen ∧ OLink (aliasOrigins u.line idx names o) (runOpsU u (cAliases m idx names)) ∧
-    (runOpsU u (cAliases m idx names)).line = u.line ∧
-    (∀ (k : Nat) (c : Checker), u.checkers[k]? = some c → (runOpsU u (cAliases m idx names)).checkers[k]? = some c)
-  | [], _, u, h, _, _, _, o, ho => ⟨h, ho, rfl, fun _ _ hc => hc⟩
+    (runOpsU u (cAliases m idx names)).line = u.line ∧ UsedPersist u (runOpsU u (cAliases m idx names))
+  | [], _, u, h, _, _, _, o, ho => ⟨h, ho, rfl, UsedPersist.refl u⟩
   | a :: r, idx, u, h, hal, hfresh, hseen, o, ho => by
     obtain ⟨hca, hsn⟩ := hal a (List.mem_cons_self ..) idx
     have hrun : runOpsU u (cAliases m idx (a :: r)) = runOpsU (stepU u (.importAlias [aliasBinds a] (aliasBinds a) idx false)) (cAliases m (idx + 1) r) := by
       simp only [cAliases, hca]; rfl
     rw [hrun]
-    obtain ⟨h1, o1, l1, p1, f1, _⟩ := alias_step h hsn idx hfresh hseen ho
+    obtain ⟨h1, o1, l1, p1, f1, r1⟩ := alias_step h hsn idx hfresh hseen ho
     obtain ⟨h2, o2, l2, p2⟩ := aliasesU m r (idx + 1) _ h1 (fun b hb => hal b (List.mem_cons_of_mem _ hb)) f1 (by rw [l1]; exact hseen) _ o1
-    refine ⟨h2, ?_, l2.trans l1, fun k c hc => p2 k c (p1 k c hc)⟩
+    have pa : UsedPersist u (stepU u (.importAlias [aliasBinds a] (aliasBinds a) idx false)) :=
+      ⟨fun k c hc hu => ⟨c, p1 k c hc, hu, rfl, rfl, rfl⟩, r1⟩
+    refine ⟨h2, ?_, l2.trans l1, pa.trans p2⟩
     simp only [aliasOrigins]
     rw [l1] at o2; exact o2
 
@@ -976,15 +1427,6 @@ theorem aliasOrigins_nodup (line : Nat) : ∀ (names : List Alias) (idx : Nat) (
 
 /-! ### statements, both sides in lock step -/
 
-def UsedLink (s : XState) (u : UState) : Prop :=
-  ∀ o ∈ s.usedImps, ∃ (k : Nat) (c : Checker), u.checkers[k]? = some c ∧ (c.line, c.idx) = o ∧ c.used = true
-
-theorem UsedLink.persist {s : XState} {u u' : UState} (h : UsedLink s u) (p : UsedPersist u u') : UsedLink s u' := by
-  intro o ho
-  obtain ⟨k, c, hc, hid, hu⟩ := h o ho
-  obtain ⟨c', hc', hu', hl, hi⟩ := p k c hc hu
-  exact ⟨k, c', hc', by rw [hl, hi]; exact hid, hu'⟩
-
 /-- reads of an expression at module level: whatever the run recorded as used is marked by the analysis -/
 theorem exprU {seen : List Nat} {D : Bool} {s : XState} {u : UState} (h : UInv u seen) (hc : CorrU s u)
     (f : Nat) (e : Expr) (hfr : fragBExpr D e = true) :
@@ -997,13 +1439,15 @@ theorem exprU {seen : List Nat} {D : Bool} {s : XState} {u : UState} (h : UInv u
   · exact (UsedLink.persist hc.used m.persist) o hold
   · simp only [headsOf, List.mem_map] at hn
     obtain ⟨d, hd, rfl⟩ := hn
-    obtain ⟨k, c, hk, hck, hid⟩ := hc.origin _ o horig
+    obtain ⟨k, c, hk, hck, hid, hca⟩ := hc.origin _ o horig
     obtain ⟨c', hc', hu'⟩ := fm d hd (loads_good D e hfr d hd).1 k c hk hck
-    obtain ⟨c0, hc0, _, hl, hi, _⟩ := m.get hc'
+    obtain ⟨c0, hc0, _, hl, hi, _, han, _⟩ := m.get hc'
     rw [hck] at hc0
     have := Option.some.inj hc0
     subst this
-    exact ⟨k, c', hc', by rw [← hl, ← hi]; exact hid, hu'⟩
+    refine ⟨k, c', hc', by rw [← hl, ← hi]; exact hid, hu', by rw [← han]; exact hca, fun hm => ?_⟩
+    rw [m.unusedEq] at hm
+    exact (h.unusedOK k hm).2 4 _ (by unfold topScope at hk; exact hk)
 
 theorem CorrU.same {s s' : XState} {u : UState} (h : CorrU s u) (hs : SameUpToLog s s') (hl : UsedLink s' u) : CorrU s' u :=
   ⟨by rw [hs.origins]; exact h.okeys, by rw [hs.origins]; exact h.origin, by rw [hs.line]; exact h.line, hl⟩
@@ -1021,15 +1465,15 @@ def StepU (fx : Fixes) (ln f : Nat) (stmt : Stmt) (s : XState) (u : UState) (see
 theorem importStmtU {seen : List Nat} {s : XState} {u : UState} (h : UInv u seen) (hc : CorrU s u)
     (m : Option Str) (names : List Alias)
     (hal : ∀ a ∈ names, ∀ i, cAlias m i a = .importAlias [aliasBinds a] (aliasBinds a) i false ∧ simpleName (aliasBinds a) = true)
-    (hfresh : ∀ (k : Nat) (c : Checker), u.checkers[k]? = some c → c.line ≠ u.line) (hseen : u.line ∈ seen)
+    (hfresh : ∀ (k : Nat) (c : Checker), u.checkers[k]? = some c → c.anon = false → c.line ≠ u.line) (hseen : u.line ∈ seen)
     (mx : X Unit) (hus : UsedSame mx) (hor : OrigOK mx (fun l o => aliasOrigins l 0 names o)) :
     let res := (mx >>= fun _ => (Pure.pure Flow.normal : X Flow)) s
     let u' := runOpsU u (cAliases m 0 names)
     UInv u' seen ∧ UsedPersist u u' ∧ u'.line = u.line ∧ UsedLink res.1 u' ∧
     (∀ fl, res.2 = .ok fl → fl = Flow.normal ∧ CorrU res.1 u') := by
   intro res u'
-  obtain ⟨h1, o1, l1, p1⟩ := aliasesU m names 0 u h hal (fun k c hk hl => absurd hl (hfresh k c hk)) hseen s.origins hc.origin
-  have hp : UsedPersist u u' := fun k c hk hu => ⟨c, p1 k c hk, hu, rfl, rfl⟩
+  obtain ⟨h1, o1, l1, p1⟩ := aliasesU m names 0 u h hal (fun k c hk ha hl => absurd hl (hfresh k c hk ha)) hseen s.origins hc.origin
+  have hp : UsedPersist u u' := p1
   have hused : res.1.usedImps = s.usedImps := by
     have := hus s
     simp only [res, X.bind_def]
@@ -1071,7 +1515,7 @@ theorem stepU_store (u : UState) (x : Str) : runOpsU u [.store x] = storeU u x .
 theorem coreU (fx : Fixes) (D : Bool) {seen : List Nat} (stmt : Stmt) (f ln : Nat) (s : XState) (u : UState)
     (hfr : fragBStmt D stmt = true) (hsi : simpleImportStmt stmt = true) (hnl : ∀ l s', stmt ≠ .located l s')
     (h : UInv u seen) (hc : CorrU s u)
-    (hfresh : isImportStmt stmt = true → ∀ (k : Nat) (c : Checker), u.checkers[k]? = some c → c.line ≠ u.line)
+    (hfresh : isImportStmt stmt = true → ∀ (k : Nat) (c : Checker), u.checkers[k]? = some c → c.anon = false → c.line ≠ u.line)
     (hseen : isImportStmt stmt = true → u.line ∈ seen) :
     StepU fx ln f stmt s u seen := by
   unfold StepU
@@ -1100,7 +1544,7 @@ theorem coreU (fx : Fixes) (D : Bool) {seen : List Nat} (stmt : Stmt) (f ln : Na
             runOpsU (storeU (runOpsU u ((loadsOf e).map Op.load)) x .none) (cAll [Expr.name x] e) := by
           simp only [cStmt, cTargets, cTarget, List.append_nil, runOpsU_append, cExprU_loads fx D e hfr.2]; rfl
         rw [hops]
-        have p12 : UsedPersist u (storeU (runOpsU u ((loadsOf e).map Op.load)) x .none) := m.persist.trans (UsedPersist.ofEq s5)
+        have p12 : UsedPersist u (storeU (runOpsU u ((loadsOf e).map Op.load)) x .none) := m.persist.trans (storeU_persist h1 hfr.1 .none)
         rcases cAll_ops x e with h0 | ⟨ns, h0⟩
         · rw [h0]
           exact ⟨h2, p12, s4.trans m.lineEq, by rw [hex]; exact UsedLink.persist hc.used p12, fun fl hfl => by rw [hex] at hfl; cases hfl⟩
@@ -1115,8 +1559,8 @@ theorem coreU (fx : Fixes) (D : Bool) {seen : List Nat} (stmt : Stmt) (f ln : Na
         simp only [fragBStmt, List.all_eq_true] at hfr
         simp only [simpleImportStmt, List.all_eq_true] at hsi
         exact cAlias_simple_import i (hfr a ha) (hsi a ha)
-      obtain ⟨h1, o1, l1, p1⟩ := aliasesU none names 0 u h hal (fun k c hk hl => absurd hl (hfresh rfl k c hk)) (hseen rfl) s.origins hc.origin
-      have hp : UsedPersist u (runOpsU u (cAliases none 0 names)) := fun k c hk hu => ⟨c, p1 k c hk, hu, rfl, rfl⟩
+      obtain ⟨h1, o1, l1, p1⟩ := aliasesU none names 0 u h hal (fun k c hk ha hl => absurd hl (hfresh rfl k c hk ha)) (hseen rfl) s.origins hc.origin
+      have hp : UsedPersist u (runOpsU u (cAliases none 0 names)) := p1
       exact ⟨h1, hp, l1, by rw [hex]; exact UsedLink.persist hc.used hp, fun fl hfl => by rw [hex] at hfl; cases hfl⟩
     | importFrom mname names =>
       have hm : mname ≠ "__future__".toList := by simpa [simpleImportStmt] using hsi
@@ -1124,8 +1568,8 @@ theorem coreU (fx : Fixes) (D : Bool) {seen : List Nat} (stmt : Stmt) (f ln : Na
         intro a ha i
         simp only [fragBStmt, List.all_eq_true] at hfr
         exact cAlias_simple_from i (hfr a ha) hm
-      obtain ⟨h1, o1, l1, p1⟩ := aliasesU (some mname) names 0 u h hal (fun k c hk hl => absurd hl (hfresh rfl k c hk)) (hseen rfl) s.origins hc.origin
-      have hp : UsedPersist u (runOpsU u (cAliases (some mname) 0 names)) := fun k c hk hu => ⟨c, p1 k c hk, hu, rfl, rfl⟩
+      obtain ⟨h1, o1, l1, p1⟩ := aliasesU (some mname) names 0 u h hal (fun k c hk ha hl => absurd hl (hfresh rfl k c hk ha)) (hseen rfl) s.origins hc.origin
+      have hp : UsedPersist u (runOpsU u (cAliases (some mname) 0 names)) := p1
       exact ⟨h1, hp, l1, by rw [hex]; exact UsedLink.persist hc.used hp, fun fl hfl => by rw [hex] at hfl; cases hfl⟩
     | located l s' => exact absurd rfl (hnl l s')
     | augAssign _ _ => simp [fragBStmt] at hfr
@@ -1174,7 +1618,7 @@ theorem coreU (fx : Fixes) (D : Bool) {seen : List Nat} (stmt : Stmt) (f ln : Na
           simp only [cStmt, cTargets, cTarget, List.append_nil, runOpsU_append, cExprU_loads fx D e hfr.2]; rfl
         rw [hops]
         have p12 : UsedPersist (runOpsU u ((loadsOf e).map Op.load)) (storeU (runOpsU u ((loadsOf e).map Op.load)) x .none) :=
-          UsedPersist.ofEq s5
+          storeU_persist h1 hfr.1 .none
         -- the run-time side
         have hexec : ∀ (uF : UState), UsedPersist (storeU (runOpsU u ((loadsOf e).map Op.load)) x .none) uF →
             (CorrU { (evalExpr f {} e s).1 with globals := assocSet x RVal.opq (evalExpr f {} e s).1.globals } uF → True) →
@@ -1327,10 +1771,10 @@ theorem locatedU (fx : Fixes) (D : Bool) {seen : List Nat} (l : Nat) (core : Stm
     · exact List.mem_cons_of_mem _ hx
     · exact hx
   apply coreU fx D core f l _ _ hfr hsi hnl ((h.setLine l).seenMono hmono) (hc.setLine l)
-  · intro hi k c hk
+  · intro hi k c hk ha
     have hns := hl hi
     intro hcl
-    have := h.seenLines k c hk
+    have := h.seenLines k c hk ha
     show False
     have hcl' : c.line = l := hcl
     rw [hcl'] at this
@@ -1364,7 +1808,7 @@ theorem stmtsU_ana (fx : Fixes) (D : Bool) : ∀ (ss : List Stmt) (seen : List N
       obtain ⟨a1, a2, _, _, _⟩ := locatedU fx D l core 0 ln { line := u.line } u hfc hsc hnl hlc h (CorrU.dummy u)
       simp only [cStmts, cStmt, runOpsU_append, runOpsU_setLine]
       obtain ⟨seen', b1, b2⟩ := stmtsU_ana fx D ss _ _ ln hlr (by simpa [fragB] using hfr.2) hsi.2 a1
-      have p0 : UsedPersist u { u with line := l } := UsedPersist.ofEq rfl
+      have p0 : UsedPersist u { u with line := l } := UsedPersist.ofEq rfl rfl
       exact ⟨seen', b1, (p0.trans a2).trans b2⟩
     | _ => simp [linesOK] at hl
 
@@ -1408,7 +1852,7 @@ theorem stmtsU (fx : Fixes) (D : Bool) : ∀ (ss : List Stmt) (f : Nat) (s : XSt
         exact ⟨seen', a, b, by rw [this]; exact UsedLink.persist hc.used b⟩
       | succ f =>
         obtain ⟨a1, a2, a3, a4, a5⟩ := locatedU fx D l core f ln s u hfc hsc hnl hlc h hc
-        have p0 : UsedPersist u { u with line := l } := UsedPersist.ofEq rfl
+        have p0 : UsedPersist u { u with line := l } := UsedPersist.ofEq rfl rfl
         have hexs : execStmt (f + 1) {} (.located l core) s = execStmt f {} core { s with line := l } := by
           simp only [execStmt, X.bind_def, X.modify]
         simp only [cStmts, cStmt, runOpsU_append, runOpsU_setLine, execStmts, X.bind_def, hexs]
@@ -1430,52 +1874,88 @@ theorem stmtsU (fx : Fixes) (D : Bool) : ∀ (ss : List Stmt) (f : Nat) (s : XSt
 
 /-! ### the end of the analysis and the theorem -/
 
-theorem collectUnused_facts : ∀ (items : List (Str × Val)) (u : UState),
-    (collectUnused u items).checkers = u.checkers ∧
-    ∀ k ∈ (collectUnused u items).unused, k ∈ u.unused ∨ ∃ c : Checker, u.checkers[k]? = some c ∧ c.used = false
+theorem mem_unusedShadowed {cs : List Checker} {k j : Nat} (h : j ∈ unusedShadowed cs k) :
+    ∃ c d, cs[k]? = some c ∧ j ∈ c.shadowed ∧ cs[j]? = some d ∧ d.used = false := by
+  unfold unusedShadowed at h
+  cases hc : cs[k]? with
+  | none => rw [hc] at h; simp at h
+  | some c =>
+    rw [hc] at h
+    simp only [List.mem_filter] at h
+    cases hd : cs[j]? with
+    | none => rw [hd] at h; simp at h
+    | some d =>
+      rw [hd] at h
+      exact ⟨c, d, rfl, h.1, rfl, by simpa using h.2⟩
+
+/-- what `_scan_unused_imports` may report: a checker that is unused now, an import or something an existing checker shadows -/
+def Reportable (cs : List Checker) (k : Nat) : Prop :=
+  ∃ c : Checker, cs[k]? = some c ∧ c.used = false ∧ (c.anon = false ∨ ∃ (k1 : Nat) (c1 : Checker), cs[k1]? = some c1 ∧ k ∈ c1.shadowed)
+
+theorem scanItems_facts : ∀ (items : List (Str × Val)) (u : UState),
+    (scanItems u items).checkers = u.checkers ∧
+    ∀ k ∈ (scanItems u items).unused, k ∈ u.unused ∨ Reportable u.checkers k
   | [], u => ⟨rfl, fun k hk => .inl hk⟩
   | kv :: r, u => by
-    simp only [collectUnused, List.foldl_cons]
-    have hstep : ∀ u1 : UState, (u1 = u ∨ ∃ k0 c0, u.checkers[k0]? = some c0 ∧ c0.used = false ∧ u1 = { u with unused := u.unused ++ [k0] }) →
-        (r.foldl (fun st kv => match isUnusedAt st kv.1 kv.2 with
-          | some k => { st with unused := st.unused ++ [k] }
-          | none => st) u1).checkers = u.checkers ∧
-        ∀ k ∈ (r.foldl (fun st kv => match isUnusedAt st kv.1 kv.2 with
-          | some k => { st with unused := st.unused ++ [k] }
-          | none => st) u1).unused, k ∈ u.unused ∨ ∃ c : Checker, u.checkers[k]? = some c ∧ c.used = false := by
-      intro u1 hu1
-      obtain ⟨i1, i2⟩ := collectUnused_facts r u1
-      simp only [collectUnused] at i1 i2
-      rcases hu1 with rfl | ⟨k0, c0, hc0, hcu, rfl⟩
-      · exact ⟨i1, i2⟩
-      · refine ⟨i1, fun k hk => ?_⟩
-        rcases i2 k hk with h | h
-        · rcases List.mem_append.mp h with h | h
-          · exact .inl h
-          · simp only [List.mem_singleton] at h; subst h; exact .inr ⟨c0, hc0, hcu⟩
-        · exact .inr h
+    have hstep : ∀ u1 : UState, u1.checkers = u.checkers → (∀ k ∈ u1.unused, k ∈ u.unused ∨ Reportable u.checkers k) →
+        (scanItems u1 r).checkers = u.checkers ∧ ∀ k ∈ (scanItems u1 r).unused, k ∈ u.unused ∨ Reportable u.checkers k := by
+      intro u1 e1 e2
+      obtain ⟨i1, i2⟩ := scanItems_facts r u1
+      refine ⟨i1.trans e1, fun k hk => ?_⟩
+      rcases i2 k hk with h | h
+      · exact e2 k h
+      · rw [e1] at h; exact .inr h
+    have hunf : scanItems u (kv :: r) = scanItems (match kv.2 with
+        | .obj k =>
+          match u.checkers[k]? with
+          | some c =>
+            let st := if nameIs c kv.1 || c.anon then { u with unused := u.unused ++ unusedShadowed u.checkers k } else u
+            if c.used || c.anon then st
+            else if nameIs c kv.1 then { st with unused := st.unused ++ [k] } else st
+          | none => u
+        | .none => u) r := rfl
+    rw [hunf]
     apply hstep
-    cases hun : isUnusedAt u kv.1 kv.2 with
-    | none => exact .inl rfl
-    | some k0 =>
-      right
-      unfold isUnusedAt at hun
-      cases hv : kv.2 with
-      | none => rw [hv] at hun; simp at hun
-      | obj k1 =>
-        rw [hv] at hun
-        simp only at hun
-        cases hc : u.checkers[k1]? with
-        | none => rw [hc] at hun; simp at hun
+    · cases kv.2 with
+      | none => rfl
+      | obj k =>
+        simp only
+        cases hc : u.checkers[k]? with
+        | none => rfl
         | some c =>
-          rw [hc] at hun
-          simp only at hun
-          split at hun
-          · rename_i hcond
-            simp only [Option.some.injEq] at hun; subst hun
-            simp only [Bool.and_eq_true, Bool.not_eq_true', decide_eq_true_eq] at hcond
-            exact ⟨k1, c, hc, hcond.1, rfl⟩
-          · simp at hun
+          simp only
+          split <;> split <;> (try split) <;> rfl
+    · intro j hj
+      cases hv : kv.2 with
+      | none => rw [hv] at hj; exact .inl hj
+      | obj k =>
+        rw [hv] at hj
+        simp only at hj
+        cases hc : u.checkers[k]? with
+        | none => rw [hc] at hj; exact .inl hj
+        | some c =>
+          rw [hc] at hj
+          simp only at hj
+          have hA : ∀ j ∈ (if (nameIs c kv.1 || c.anon) = true then { u with unused := u.unused ++ unusedShadowed u.checkers k } else u).unused,
+              j ∈ u.unused ∨ Reportable u.checkers j := by
+            intro j hj
+            split at hj
+            · rcases List.mem_append.mp hj with hj | hj
+              · exact .inl hj
+              · obtain ⟨c1, d, hc1, hm, hd, hdu⟩ := mem_unusedShadowed hj
+                exact .inr ⟨d, hd, hdu, .inr ⟨k, c1, hc1, hm⟩⟩
+            · exact .inl hj
+          split at hj
+          · exact hA j hj
+          · rename_i hua
+            split at hj
+            · rename_i hn
+              rcases List.mem_append.mp hj with hj | hj
+              · exact hA j hj
+              · simp only [List.mem_singleton] at hj; subst hj
+                simp only [Bool.or_eq_true, not_or, Bool.not_eq_true] at hua
+                exact .inr ⟨c, hc, hua.1, .inl hua.2⟩
+            · exact hA j hj
 
 theorem foldl_sniU_marks : ∀ (l : List (Str × List Nat)) (u : UState),
     Marks u (l.foldl (fun st d => (sniU st d.2 d.1).2) u)
@@ -1493,9 +1973,8 @@ theorem finishU_facts {u : UState} {seen : List Nat} (h : UInv u seen) :
     (u.deferred.foldl (fun st d => (sniU st d.2 d.1).2) u)
   have m := m1.trans m2
   have hi := h.marks m
-  refine ⟨⟨hi.stack, hi.len, hi.inFunc, hi.simpleKeys, hi.unusedOK, hi.uniq, hi.seenLines, hi.valid, hi.bindKey⟩, ?_⟩
-  intro k c hc hu
-  exact m.persist k c hc hu
+  exact ⟨⟨hi.stack, hi.len, hi.inFunc, hi.simpleKeys, hi.unusedOK, hi.shOK, hi.uniq, hi.seenLines, hi.valid, hi.bindKey⟩,
+    ⟨m.persist.used, m.persist.rep⟩⟩
 
 theorem runProgram_used (fuel : Nat) (body : List Stmt) (s0 : XState) :
     (runProgram fuel body [] s0).1.usedImps = (execStmts fuel {} body s0).1.usedImps := by
@@ -1531,12 +2010,52 @@ theorem uinv_init (builtins : Scope) (am dn : Bool) (hb : builtinsPlain builtins
     | n + 5 =>
       have : (initU builtins am dn).heap.get (n + 5) = {} := Heap.get_ge _ (by simp [initU])
       rw [this] at hk; simp [Scope.get, assocGet] at hk
-  refine ⟨by simp only [initU]; decide, by simp [initU], rfl, ?_, fun k hk => by simp [initU] at hk, ?_, ?_, ?_, ?_⟩
+  have hnock : ∀ (k : Nat) (c : Checker), (initU builtins am dn).checkers[k]? = some c → False := by
+    intro k c hc
+    have : (initU builtins am dn).checkers = [] := rfl
+    rw [this] at hc; simp at hc
+  refine ⟨by simp only [initU]; decide, by simp [initU], rfl, ?_, fun k hk => by simp [initU] at hk, ?_, ?_, ?_, ?_, ?_⟩
   · intro key v hv; exact absurd hv (by unfold topScope; have : (initU builtins am dn).heap.get 4 = {} := rfl; rw [this]; simp [Scope.get, assocGet])
-  · intro k k' c c' hc; simp [initU] at hc
-  · intro k c hc; simp [initU] at hc
+  · intro k c hc; exact (hnock k c hc).elim
+  · intro k k' c c' hc; exact (hnock k c hc).elim
+  · intro k c hc; exact (hnock k c hc).elim
   · intro i key k hk; exact absurd hk (hcells i key k)
   · intro key k c hk; exact absurd hk (by unfold topScope; exact hcells 4 key k)
+
+/-- a used import checker that has not been reported is not in the final report -/
+theorem scan_not_reported {u : UState} {seen : List Nat} (h2 : UInv u seen) {k : Nat} {c : Checker}
+    (hc : u.checkers[k]? = some c) (hu : c.used = true) (ha : c.anon = false) (hnu : k ∉ u.unused) :
+    (c.line, c.idx) ∉ (scanUnusedU u).unused.filterMap (fun k => ((scanUnusedU u).checkers[k]?).map (fun c => (c.line, c.idx))) := by
+  intro hmem
+  obtain ⟨cs, hun⟩ := scanItems_facts (u.heap.get u.stack.top).items u
+  unfold scanUnusedU at hmem
+  simp only [List.mem_filterMap] at hmem
+  obtain ⟨k', hk', hck'⟩ := hmem
+  rw [cs] at hck'
+  cases hc' : u.checkers[k']? with
+  | none => rw [hc'] at hck'; simp at hck'
+  | some c' =>
+    rw [hc'] at hck'
+    simp only [Option.map_some, Option.some.injEq] at hck'
+    have hrep := hun k' hk'
+    have ha' : c'.anon = false := by
+      rcases hrep with hold | ⟨c2, hc2, _, hc2a | ⟨k1, c1, hc1, hm⟩⟩
+      · obtain ⟨⟨c3, hc3, hca3⟩, _⟩ := h2.unusedOK k' hold
+        rw [hc'] at hc3; cases hc3; exact hca3
+      · rw [hc'] at hc2; cases hc2; exact hc2a
+      · obtain ⟨⟨d, hd, hda⟩, _⟩ := h2.shOK k1 c1 hc1 k' hm
+        rw [hc'] at hd; cases hd; exact hda
+    have hkk : k' = k := h2.uniq k' k c' c hc' hc ha' ha hck'
+    subst hkk
+    rw [hc] at hc'
+    have hcc : c = c' := Option.some.inj hc'
+    subst hcc
+    rcases hrep with hold | ⟨c2, hc2, hcu2, _⟩
+    · exact hnu hold
+    · rw [hc] at hc2
+      have : c = c2 := Option.some.inj hc2
+      subst this
+      rw [hu] at hcu2; cases hcu2
 
 /-- the initial run-time state of the theorem: nothing imported, nothing read yet, line 0 -/
 structure AgreeU (s0 : XState) : Prop where
@@ -1562,33 +2081,10 @@ theorem C02_read_import_not_unused (fx : Fixes) (builtins : Scope) (prog : List 
      by rw [h0.line]; rfl, fun x hx => by rw [h0.usedImps] at hx; simp at hx⟩
   obtain ⟨seen', h1, _, l1⟩ := stmtsU fx D prog fuel s0 (initU builtins fx.allUseMark fx.deferredNames) [] 0 hl hfr hsi (uinv_init builtins fx.allUseMark fx.deferredNames hb) hc0
   obtain ⟨h2, p2⟩ := finishU_facts h1
-  obtain ⟨k, c, hc, hid, hu⟩ := UsedLink.persist l1 p2 o ho
+  obtain ⟨k, c, hc, hid, hu, ha, hnu⟩ := UsedLink.persist l1 p2 o ho
   -- the final scan only reports checkers that are still unused
-  obtain ⟨cs, hun⟩ := collectUnused_facts ((finishU (runOpsU (initU builtins fx.allUseMark fx.deferredNames) (cStmts fx 0 prog))).heap.get
-      (finishU (runOpsU (initU builtins fx.allUseMark fx.deferredNames) (cStmts fx 0 prog))).stack.top).items (finishU (runOpsU (initU builtins fx.allUseMark fx.deferredNames) (cStmts fx 0 prog)))
-  unfold findUnused analyzeU scanUnusedU at hmem
-  simp only [List.mem_filterMap] at hmem
-  obtain ⟨k', hk', hck'⟩ := hmem
-  rw [cs] at hck'
-  cases hc' : (finishU (runOpsU (initU builtins fx.allUseMark fx.deferredNames) (cStmts fx 0 prog))).checkers[k']? with
-  | none => rw [hc'] at hck'; simp at hck'
-  | some c' =>
-    rw [hc'] at hck'
-    simp only [Option.map_some, Option.some.injEq] at hck'
-    have hkk : k' = k := h2.uniq k' k c' c hc' hc (by rw [hck', hid])
-    subst hkk
-    rw [hc] at hc'
-    have hcc : c = c' := Option.some.inj hc'
-    subst hcc
-    rcases hun k' hk' with hold | ⟨c2, hc2, hcu2⟩
-    · obtain ⟨⟨c3, hc3, hcu3⟩, _⟩ := h2.unusedOK k' hold
-      rw [hc] at hc3
-      have : c = c3 := Option.some.inj hc3
-      subst this
-      rw [hu] at hcu3; cases hcu3
-    · rw [hc] at hc2
-      have : c = c2 := Option.some.inj hc2
-      subst this
-      rw [hu] at hcu2; cases hcu2
+  have := scan_not_reported h2 hc hu ha hnu
+  rw [hid] at this
+  exact this hmem
 
 end Pfb.C05
